@@ -1,5 +1,5 @@
 """Source translator (DESIGN 5.1b): regenerates Gallina definitions from the CURRENT text of netaddr/ip/__init__.py
-(and the three constants width/version/max_int of netaddr/strategy/ipv4.py, ipv6.py) on every run -> coq/Gen/pysrc_gen.v
+(and of the other source files listed in UNITS, see "Third round" below; and the three constants width/version/max_int of netaddr/strategy/ipv4.py, ipv6.py) on every run -> coq/Gen/pysrc_gen.v
 (methods) and coq/Gen/pysrc_span_gen.v, pysrc_partition_gen.v, pysrc_iprange_gen.v (module-level functions, one file per
 property so that a definition Coq rejects cannot take unrelated obligations down).  coq/Proofs/GenOk_Src_*.v prove every
 generated definition equal to the hand-written model function of coq/Model/*.v, so a source edit that changes a translated
@@ -43,6 +43,50 @@ Reading of the new constructs (all of it is trusted translator input, with the t
   second name); checked syntactically over the whole function.  From then on a read of a translated property of x whose
   translation relied on the class invariant is preceded by the test 0 <= prefixlen <= width -> else `Raise Unsupported`.
 * `2 ** e` with an exponent that depends on a parameter gets the guard `e < 0 -> Raise Unsupported` (Python would build a float).
+Third round (other source files, table UNITS; one generated file per unit):
+* netaddr/contrib/subnet_splitter.py -> coq/Gen/pysrc_splitter_gen.v.  The object state `self._subnets` (STATEVARS) is read and
+  written like a local: it is a leading parameter `self_subnets`, a method that assigns it (also through `self.m(..)` or a mutator
+  call on it) returns the new state -- alone if the method returns no value, else the pair (state, value).  A Python set is the
+  Coq list of its elements (SrcPrelude: no duplicates under the element equality, insertion order standing for the unspecified
+  iteration order): `s.remove(x)` = py_set_remove (KeyError), `set(l)` = py_set_of_list, `s.union(t)` = py_set_union, equality of
+  IPNetwork elements = net_key_eqb (key() = version, first, last).  `sorted(xs, key=lambda x: <int>, reverse=True)` =
+  py_sorted_desc (stable).  `not l` / `if l` on a list = py_nonempty.  `[y for x in xs for y in f(x)]` = py_flat_map_o.
+  `for x in <expression>` evaluates the list once; loops may be nested; `return e` inside a loop that is not itself nested makes
+  the loop's Fixpoint answer `inl e` (the function's result) | `inr <variables read afterwards>`.  Calls that are NOT translated
+  become prelude symbols that are the callee's hand model (EXTERN: cidr_merge -> py_cidr_merge; list(x.subnet(p, count=c)) ->
+  py_list_subnet, Model/SrcPreludeSplitter.v).  A parameter declared `optint` is None or an int (option Z) and may only be passed on.
+* netaddr/ip/__init__.py, IPListMixin -> coq/Gen/pysrc_listlike_gen.v (a second unit over the same file; everything it does not list
+  is the first unit's).  `"method:variant"` in a unit's entry is a specialisation of the method by the declared parameter types:
+  `hasattr(<parameter>, '<name>')` is decided by the declared type (HASATTR), so __getitem__ is translated once for an int index and
+  once for a slice index (a slice = the triple of its components, each None or an int).  `try: body / except E1: raise E2(..)` =
+  `do <variables assigned in body> <- py_except E1 E2 (body); rest` (body: assignments, if, raise only).  `index.indices(n)` =
+  py_slice_indices, `len(_iter_range(a, b, c))` = py_range_len, `_sys_maxint` = ssize_max (Model/PySlice.v; compat_ok() checks how
+  netaddr/compat.py binds the two names), `iter([])` = ItEmpty and the not yet started generator `iter_iprange(a, b, step)` =
+  ItIprange (Model/ListLike.v).
+* netaddr/strategy/__init__.py -> pysrc_strategy_gen.v: a word sequence is a list of ints.  `len(l)` = Z.of_nat (length l);
+  `for _ in range(n)` = a Fixpoint on the nat Z.to_nat n (the loop variable must not be read); `for i, x in enumerate(l)` carries
+  the counter i = 0, 1, ..; `reversed(l)` = rev l where it is consumed at once (for / enumerate / tuple); `tuple(l)` = l.
+  Text (parameters declared `str`, string literals) is a Coq string: `a == b` / `!=` = String.eqb, `len(s)` = str_len,
+  `s.replace(a, b)` = replace, `s.startswith(p)` = starts_with (Base/PyStr.v), `s[k:]` = py_str_from k, `int(s, 2)` = py_int_o
+  (ValueError), `bin(e)` = py_bin, `CHARSET.issuperset(s)` for a module-level frozenset([..]) of characters = py_chars_in
+  (Model/SrcPreludeStr.v); `_is_str(x)` is decided by the type (compat binds it to `lambda x: isinstance(x, ..)`);
+  `try: <if/return/raise, no assignment> / except E: pass` = py_except_pass E (body answering inl r | inr tt);
+  `try: .. / except NameError: ..` around code that reads only locals and known builtins is its body (the handler is dead).
+* netaddr/strategy/eui48.py, eui64.py -> pysrc_eui48_gen.v, pysrc_eui64_gen.v: a dialect parameter (`optdialect`) is None or the
+  pair (word_size, num_words) of a dialect class; `if dialect is None: dialect = DEFAULT` binds the pair; DEFAULT is a generated
+  constant read from the class bodies (int constant expressions, evaluated per class body, looked up through the bases).  A function
+  imported under an alias from another unit's module (`from netaddr.strategy import int_to_words as _int_to_words`) is that unit's
+  translated definition.
+* netaddr/eui/__init__.py -> pysrc_eui_gen.v: an EUI receiver is (ver, v) = (_module.version, _value); `self._module == _eui48` /
+  `is` = `ver =? src_eui48_version` (the modules are told apart by their regenerated `version` constants); `name = property(_getter,
+  ..)` is read through `_getter`; `self.__class__(e, version=k)` = mk_eui k e (Model/SrcPreludeEui.v = eui_init on an int);
+  `OUI(e)` / `IAB(e)` are represented by the integer e (CTOR_AS_ARG: the registry lookup of the constructor is not translated);
+  `e in C.ATTR` for a class-level tuple of int literals = existsb (Z.eqb e) [..]; `x._value op= e` on an owned local EUI object
+  is a record update (and `return x` is allowed for an owned object); `int(x)` = the translated __int__.
+* netaddr/ip/__init__.py, classification -> pysrc_classify_gen.v (needs Gen/classify_gen.v): the block tables are module-level
+  names whose VALUES harness/gen/classify.py regenerates (UNIT_TABLES: one row (kind, version, a, b) or a list of rows);
+  `self in T` = src_contains_row T <receiver as operand> (UNIT_PREAMBLE: the translated __contains__ of the row's class);
+  `if self.m():` / `not self.m()` for a method that returns a bool on some paths and None on the others = py_truthy.
 Conventions (DESIGN 3): Python ints are Z; a shift count that depends on a parameter gets CPython's `ValueError: negative shift
 count` guard, a count built from object state and literals only is taken as non-negative (class invariant 0 <= prefixlen <=
 width); method parameters are ints unless declared otherwise in WHITELIST; every parameter of a module-level function is declared in FUNCS.
@@ -57,7 +101,7 @@ STRATEGY = (("ipv4", "netaddr/strategy/ipv4.py"), ("ipv6", "netaddr/strategy/ipv
 
 # receiver class -> parameters standing for the object state (version, width, _value[, _prefixlen] / _start, _end values)
 STATE = {"BaseIP": ("ver", "w", "v"), "IPAddress": ("ver", "w", "v"), "IPNetwork": ("ver", "w", "v", "p"),
-         "IPRange": ("ver", "w", "s", "e"), None: ()}
+         "IPRange": ("ver", "w", "s", "e"), None: (), "SubnetSplitter": (), "EUI": ("ver", "v")}
 FIELD = {"self._value": "v", "self._prefixlen": "p"}      # assignable state attributes -> their state parameter
 
 # ---- trusted translator input --------------------------------------------------------------------------------------
@@ -96,12 +140,81 @@ SKIP = {("IPRange", "sort_key"): "calls core.num_bits (int.bit_length): outside 
         ("IPNetwork", "__contains__ fallback"): "`return IPNetwork(other) in self` for a non-BaseIP operand (string parser): Raise Unsupported",
         ("IPRange", "__contains__ fallback"): "`return IPAddress(other) in self` for a non-BaseIP operand (string parser): Raise Unsupported"}
 
+# ---- third round: other source files.  One unit = (source file, output file, prefix of the generated names of its module-level
+# functions, extra `Require`d prelude modules, entries as in WHITELIST/FUNCS).  A unit may call translated definitions of
+# netaddr/ip/__init__.py through the names it imports from netaddr.ip.
+UNITS = [
+    ("netaddr/contrib/subnet_splitter.py", "pysrc_splitter_gen.v", "", " Model.SrcPreludeSplitter",
+     [("SubnetSplitter", "available_subnets", {}), ("SubnetSplitter", "remove_subnet", {"ip_network": "net"}),
+      ("SubnetSplitter", "extract_subnet", {"prefix": "int", "count": "optint"})]),
+    # IPListMixin indexing / len for the two receiver classes; `__getitem__:int` / `__getitem__:slice` are the two specialisations
+    # of __getitem__ by the declared type of `index` (`hasattr(index, 'indices')` is decided by that type)
+    (IPFILE, "pysrc_listlike_gen.v", "", " Model.PySlice Model.ListLike",
+     [(c, m, t) for c in ("IPNetwork", "IPRange") for m, t in (
+         ("__len__", {}), ("__getitem__:int", {"index": "int"}), ("__getitem__:slice", {"index": "slice"}))]),
+    # the word functions of netaddr/strategy/__init__.py; a sequence of words is a list of ints
+    ("netaddr/strategy/__init__.py", "pysrc_strategy_gen.v", "strategy_", " Base.PyStr Model.SrcPreludeStr",
+     [(None, f, {"words": "list int", "int_val": "int", "word_size": "int", "num_words": "int"}) for f in (
+         "valid_words", "int_to_words", "words_to_int")] +
+     # the bit-string / binary-literal functions: text is a Coq string (Base/PyStr.v), its operations are SrcPreludeStr symbols
+     [(None, f, {"bits": "str", "bin_val": "str", "word_sep": "str", "width": "int", "int_val": "int"}) for f in (
+         "valid_bits", "bits_to_int", "valid_bin", "bin_to_int", "int_to_bin")]),
+    # the word functions of the two EUI strategy modules (they pick the dialect and call the functions above)
+    ("netaddr/strategy/eui48.py", "pysrc_eui48_gen.v", "eui48_", "",
+     [(None, f, {"words": "list int", "int_val": "int", "dialect": "optdialect"}) for f in ("valid_words", "int_to_words", "words_to_int")]),
+    ("netaddr/strategy/eui64.py", "pysrc_eui64_gen.v", "eui64_", "",
+     [(None, f, {"words": "list int", "int_val": "int", "dialect": "optdialect"}) for f in ("valid_words", "int_to_words", "words_to_int")]),
+    # the integer methods of EUI (state: _module.version, _value)
+    ("netaddr/eui/__init__.py", "pysrc_eui_gen.v", "", " Model.Eui Model.SrcPreludeEui",
+     [("EUI", m, {}) for m in ("version", "value", "__int__", "oui", "is_iab", "eui64", "modified_eui64", "ipv6", "ipv6_link_local")]),
+    # the address classification predicates of BaseIP, one copy per receiver class; the block tables they consult are module-level
+    # names whose VALUES are regenerated by harness/gen/classify.py (coq/Gen/classify_gen.v: rows (kind, version, a, b)): UNIT_TABLES
+    (IPFILE, "pysrc_classify_gen.v", "", " Gen.classify_gen",
+     [(c, m, {}) for c in ("IPAddress", "IPNetwork", "IPRange")
+      for m in ("is_multicast", "is_unicast", "is_loopback", "is_link_local", "is_private", "is_reserved")]),
+]
+# module-level names of a unit's source file that stand for generated tables: output file -> {name: type}; `row` = one
+# IPNetwork / IPRange object as the row (kind, version, value-or-start, prefixlen-or-end) of classify_gen.v
+UNIT_TABLES = {"pysrc_classify_gen.v": dict([("IPV%d_%s" % (v, n), "row") for v in (4, 6) for n in ("LOOPBACK", "LINK_LOCAL", "MULTICAST")]
+                                            + [("IPV%d_%s" % (v, n), "list row") for v in (4, 6) for n in ("PRIVATE", "RESERVED")])}
+# fixed text at the top of a unit's file.  `x in T` for a table row T is T.__contains__(x) of the row's class:
+UNIT_PREAMBLE = {"pysrc_classify_gen.v": (
+    "(* `x in T` for a row T of Gen/classify_gen.v: the translated __contains__ of the row's class (kind 0 = IPNetwork, 1 = IPRange) *)\n"
+    "Definition src_contains_row (r : Z * Z * Z * Z) (o : operand) : outcome bool :=\n"
+    "  let '(k, ver, a, b) := r in\n"
+    "  if k =? 0 then src_IPNetwork_contains ver (width ver) a b o else src_IPRange_contains ver (width ver) a b o.\n")}
+# the receiver as the operand of `self in T`
+SELF_OPERAND = {"IPAddress": "(OAddr ver v)", "IPNetwork": "(ONet ver v p)", "IPRange": "(ORng ver s e)"}
+# strategy modules whose constants width / version / max_int a unit may read through the alias it imports them under
+UNIT_STRATEGY = {"pysrc_eui_gen.v": (("eui48", "netaddr/strategy/eui48.py"), ("eui64", "netaddr/strategy/eui64.py"))}
+# classes whose constructor call C(e) is represented by its integer argument e (the registry lookup the constructor makes is
+# NOT translated; the models of C08/C19 treat it separately)
+CTOR_AS_ARG = ("OUI", "IAB")
+# names imported from netaddr.compat that a unit may read: output file -> {name: (type, Coq term)}; the term must be defined by
+# the modules the unit `Require`s (Model/PySlice.v: ssize_max = sys.maxsize of the 64-bit platform the check runs on).
+# compat_ok() checks that netaddr/compat.py still binds the name to one of the expressions listed here.
+UNIT_NAMES = {"pysrc_listlike_gen.v": {"_sys_maxint": ("int", "ssize_max")}}
+COMPAT = {"_sys_maxint": ("_sys.maxsize", "_sys.maxint"), "_iter_range": ("range", "xrange")}
+# hasattr(<parameter>, <name>) by the declared type of the parameter
+HASATTR = {("int", "indices"): False, ("slice", "indices"): True, ("int", "__iter__"): False, ("list", "__iter__"): True}
+FILES = FILES + tuple(u[1] for u in UNITS)
+# classes whose object state is a set of attributes read and written like locals: (attribute, type) in parameter order.  A method
+# that assigns one of them (or calls a method that does) returns the new state: alone if it returns no value, else (state, value).
+STATEVARS = {"SubnetSplitter": (("_subnets", "set net"),)}
+# calls that are NOT translated: they become symbols of the prelude named in the unit (the hand model of the callee):
+# imported function -> (symbol, parameter types, result type); all of them can raise
+EXTERN = {"netaddr.ip.cidr_merge": ("py_cidr_merge", ("list net",), "list net")}
+
 EXN = ("AddrFormatError", "AddrConversionError", "ValueError", "TypeError", "IndexError", "KeyError", "StructError",
        "NotRegisteredError", "AttributeError", "OverflowError")
 RESERVED = set("ver w v p s e in let if then else match with end fun forall exists as return at do fix cofix for using "
                "where Type Prop Set Ok Raise Some None true false fst snd negb omap bind width max_int_w mk_addr mk_net "
                "SInt Z bool list option outcome net sarg nil cons nver nval nplen rev app map fuel xs nat unit tt O S "
                "py_pop operand OAddr ONet ORng OOther struct "
+               "py_nonempty py_sorted_desc py_set_remove py_set_of_list py_set_union py_flat_map_o net_key_eqb py_list_subnet "
+               "py_cidr_merge inl inr sum py_except ssize_max py_slice_indices py_range_len iterator ItEmpty ItIprange "
+               "eui ever evalue edialect mk_eui existsb py_truthy src_contains_row string String py_str_from py_chars_in py_int_o "
+               "py_bin py_except_pass replace starts_with str_len chars str_of "
                # constructors / constants of the Coq prelude: a pattern variable of that name would be read as the constructor
                "left right inl inr pair tt I conj eq_refl xH xO xI Z0 Zpos Zneg Lt Gt Eq ex_intro exist inleft inright "
                "Build_net AddrFormatError AddrConversionError ValueError TypeError IndexError KeyError StructError "
@@ -112,11 +225,14 @@ ARITH = {ast.Add: "(%s + %s)", ast.Sub: "(%s - %s)", ast.Mult: "(%s * %s)", ast.
 CMP = {ast.Lt: "(%s <? %s)", ast.LtE: "(%s <=? %s)", ast.Gt: "(%s >? %s)", ast.GtE: "(%s >=? %s)", ast.Eq: "(%s =? %s)",
        ast.NotEq: "(negb (%s =? %s))"}
 COQTY = {"int": "Z", "bool": "bool", "tuple": "(list Z)", "obj": "(Z * Z)", "net": "net", "self": "Z", "sarg": "sarg",
-         "operand": "operand", "unit": "unit"}
+         "operand": "operand", "unit": "unit", "optint": "(option Z)", "slice": "(option Z * option Z * option Z)",
+         "iterator": "iterator", "eui": "eui", "dialect": "(Z * Z)", "optdialect": "(option (Z * Z))", "row": "(Z * Z * Z * Z)",
+         "optbool": "(option bool)", "str": "string"}
 # the kinds of an `operand` (SrcPrelude.operand), their fields and the class each one stands for
 OPERAND = (("OAddr", ("ver", "v")), ("ONet", ("ver", "v", "p")), ("ORng", ("ver", "s", "e")), ("OOther", ()))
 KINDCLASS = {"OAddr": "IPAddress", "ONet": "IPNetwork", "ORng": "IPRange"}
 MUTATORS = ("append", "pop")
+PURE_METHODS = ("subnet", "union")      # x.subnet(..) (IPNetwork: a generator over new objects), s.union(t) (a new set): x, s unchanged
 
 
 class Untranslatable(Exception):
@@ -127,12 +243,16 @@ class NoJoin(Exception):
     """an `if` that cannot be written as a join of its assigned locals: translated by duplicating the continuation"""
 
 
-def bad(node, why, fn=IPFILE):
-    raise Untranslatable("%s:%s: %s" % (fn, getattr(node, "lineno", "?"), why))
+CURFILE = [IPFILE]      # the source file being translated (innermost last): names the file in every Untranslatable message
 
 
-def mangle(recv, name):
-    return "src_%s_%s" % (recv, name.strip("_")) if recv else "src_%s" % name
+def bad(node, why, fn=None):
+    raise Untranslatable("%s:%s: %s" % (fn or CURFILE[-1], getattr(node, "lineno", "?"), why))
+
+
+def mangle(recv, name, prefix=""):
+    name, _, variant = name.partition(":")          # "method:variant" = a specialisation of the method (see UNITS)
+    return ("src_%s_%s" % (recv, name.strip("_")) if recv else "src_%s%s" % (prefix, name)) + ("_" + variant if variant else "")
 
 
 def dotted(node):
@@ -177,8 +297,9 @@ def assigned_names(stmts):
                 found.append((n.lineno, n.col_offset, n.id))
             elif isinstance(n, ast.Attribute) and isinstance(n.ctx, ast.Store) and isinstance(n.value, ast.Name):
                 found.append((n.lineno, n.col_offset, n.value.id))             # x._prefixlen = e rebinds the local object x
-            elif isinstance(n, ast.Call) and isinstance(n.func, ast.Attribute) and isinstance(n.func.value, ast.Name):
-                found.append((n.lineno, n.col_offset, n.func.value.id))        # any method call on a name may mutate it
+            elif (isinstance(n, ast.Call) and isinstance(n.func, ast.Attribute) and isinstance(n.func.value, ast.Name)
+                  and n.func.attr not in PURE_METHODS):
+                found.append((n.lineno, n.col_offset, n.func.value.id))        # any other method call on a name may mutate it
             elif isinstance(n, ast.Call) and dotted(n.func) == "_iter_next" and n.args and isinstance(n.args[0], ast.Name):
                 found.append((n.lineno, n.col_offset, n.args[0].id))
     return in_order(found)
@@ -208,19 +329,23 @@ def is_list(t):
     return isinstance(t, tuple) and t[0] == "list"
 
 
+def is_set(t):
+    return isinstance(t, tuple) and t[0] == "set"
+
+
 def is_value(t):
     """types whose terms are first-class Coq values that a loop or a join can carry"""
-    return t in ("int", "bool", "net") or (isinstance(t, tuple) and t[0] in ("list", "tup"))
+    return t in ("int", "bool", "net", "optint", "iterator", "eui", "dialect", "optdialect", "row", "optbool", "str") or (isinstance(t, tuple) and t[0] in ("list", "tup", "set"))
 
 
 def parse_type(s):
-    return ("list", Cell(s[5:])) if s.startswith("list ") else s
+    return ("list", Cell(s[5:])) if s.startswith("list ") else ("set", Cell(s[4:])) if s.startswith("set ") else s
 
 
 def show(t):
     if isinstance(t, str):
         return t
-    if t[0] in ("list", "iter"):
+    if t[0] in ("list", "iter", "set"):
         return "%s of %s" % (t[0], show(t[1].find().t or "?"))
     if t[0] == "tup":
         return "tuple (%s)" % ", ".join(show(x) for x in t[1])
@@ -230,7 +355,7 @@ def show(t):
 def coqty(t, node=None):
     if isinstance(t, str):
         return COQTY[t]
-    if t[0] in ("list", "iter"):
+    if t[0] in ("list", "iter", "set"):      # a set is the list of its elements in an unspecified order, without duplicates
         e = t[1].find().t
         if e is None:
             bad(node, "list whose element type is never determined")
@@ -244,7 +369,7 @@ def unify(node, a, b, what):
     if isinstance(a, str) or isinstance(b, str) or a[0] != b[0]:
         if a != b:
             bad(node, "%s: %s where %s is expected" % (what, show(a), show(b)))
-    elif a[0] in ("list", "iter"):
+    elif a[0] in ("list", "iter", "set"):
         ca, cb = a[1].find(), b[1].find()
         if ca is cb:
             return
@@ -277,6 +402,38 @@ def unparen(s):
     return re.sub(r"^\((.*)\)$", r"\1", s)
 
 
+def compat_ok(name):
+    """is `name` bound in netaddr/compat.py only by assignments of the expressions COMPAT lists for it?  (trusted reading:
+    _sys_maxint = sys.maxsize, _iter_range = range)"""
+    fn = "netaddr/compat.py"
+    text = open(os.path.join(REPO, fn), encoding="utf-8").read()
+    binds = [n for n in ast.walk(ast.parse(text)) if (isinstance(n, (ast.FunctionDef, ast.ClassDef)) and n.name == name)
+             or (isinstance(n, ast.alias) and (n.asname or n.name) == name)
+             or (isinstance(n, (ast.Assign, ast.AugAssign, ast.AnnAssign, ast.For, ast.With, ast.NamedExpr)) and any(
+                 isinstance(t, ast.Name) and t.id == name and isinstance(t.ctx, ast.Store) for t in ast.walk(n)
+                 if not isinstance(n, ast.For) or t in ast.walk(n.target)))]
+    if not binds or any(not (isinstance(b, ast.Assign) and len(b.targets) == 1 and isinstance(b.targets[0], ast.Name)
+                             and dotted(b.value) in COMPAT.get(name, ())) for b in binds):
+        bad(binds[-1] if binds else None, "%s is not bound in compat.py the way the translator assumes" % name, fn)
+    return True
+
+
+def compat_lambda_isinstance(name):
+    """is `name` bound in netaddr/compat.py only as `name = lambda x: isinstance(x, ...)`?"""
+    fn = "netaddr/compat.py"
+    text = open(os.path.join(REPO, fn), encoding="utf-8").read()
+    binds = [n for n in ast.walk(ast.parse(text)) if (isinstance(n, (ast.FunctionDef, ast.ClassDef)) and n.name == name)
+             or (isinstance(n, ast.alias) and (n.asname or n.name) == name)
+             or (isinstance(n, (ast.Assign, ast.AugAssign, ast.AnnAssign)) and any(
+                 isinstance(t, ast.Name) and t.id == name and isinstance(t.ctx, ast.Store) for t in ast.walk(n)))]
+    ok = lambda b: (isinstance(b, ast.Assign) and len(b.targets) == 1 and isinstance(b.targets[0], ast.Name) and isinstance(b.value, ast.Lambda)
+                    and len(b.value.args.args) == 1 and isinstance(b.value.body, ast.Call) and dotted(b.value.body.func) == "isinstance"
+                    and len(b.value.body.args) == 2 and dotted(b.value.body.args[0]) == b.value.args.args[0].arg)
+    if not binds or not all(ok(b) for b in binds):
+        bad(binds[-1] if binds else None, "%s is not bound in compat.py the way the translator assumes" % name, fn)
+    return True
+
+
 class Module:
     """One parsed source file: classes, their bases and function definitions."""
 
@@ -299,6 +456,18 @@ class Module:
         ast.copy_location(f, st)
         return ast.fix_missing_locations(f)
 
+    def named_property(self, c, st, name):
+        """class-level `name = property(_getter, ...)` with `_getter` a plain method of the same class: that method, else None"""
+        if not (isinstance(st, ast.Assign) and len(st.targets) == 1 and isinstance(st.targets[0], ast.Name) and st.targets[0].id == name
+                and isinstance(st.value, ast.Call) and dotted(st.value.func) == "property" and st.value.args
+                and isinstance(st.value.args[0], ast.Name) and not any(k.arg == "fget" for k in st.value.keywords)):
+            return None
+        g = [f for f in c.body if isinstance(f, ast.FunctionDef) and f.name == st.value.args[0].id]
+        binds = [n for x in c.body for n in ([x] if isinstance(x, (ast.FunctionDef, ast.ClassDef)) else ast.walk(x))
+                 if (isinstance(n, ast.Name) and n.id == st.value.args[0].id and isinstance(n.ctx, ast.Store))
+                 or (isinstance(n, (ast.FunctionDef, ast.ClassDef)) and n.name == st.value.args[0].id)]
+        return g[0] if len(g) == 1 and len(binds) == 1 and not g[0].decorator_list else None
+
     def lookup(self, cls, name):
         """(defining class, FunctionDef, is_property) of attribute `name` of class `cls` (depth-first through the bases)."""
         c = self.classes.get(cls)
@@ -306,7 +475,7 @@ class Module:
             return None
         fs = [f for f in c.body if isinstance(f, ast.FunctionDef) and f.name == name
               and not any(isinstance(d, ast.Attribute) and d.attr in ("setter", "deleter") for d in f.decorator_list)]
-        lam = [(st, self.lambda_property(st, name)) for st in c.body]
+        lam = [(st, self.lambda_property(st, name) or self.named_property(c, st, name)) for st in c.body]
         lam = [(st, f) for st, f in lam if f is not None]
         # any other binding of the name in the class body (alias assignment, definition under if/try, ...) is not understood
         other = [n for st in c.body if st not in fs and not (isinstance(st, ast.FunctionDef) and st.name == name)
@@ -356,13 +525,15 @@ class Module:
 class Loop:
     """One translated loop: a Fixpoint emitted before the definition of its function."""
 
-    def __init__(self, name, node, iswhile, params, rty, ir, outcome, elem=None, target=None):
+    def __init__(self, name, node, iswhile, params, rty, ir, outcome, elem=None, target=None, lret=False, israng=False):
         self.name, self.node, self.iswhile, self.params, self.rty, self.ir, self.outcome = name, node, iswhile, params, rty, ir, outcome
-        self.elem, self.target = elem, target
+        self.elem, self.target, self.lret, self.israng = elem, target, lret, israng
 
     def text(self, fn):
         ps = lambda xs: "".join(" (%s : %s)" % (cn, unparen(coqty(ty, self.node))) for cn, ty in xs)
         rt = coqty(self.rty, self.node)
+        if self.lret:           # a loop with `return` in its body: inl <the function's result> | inr <the variables read afterwards>
+            rt = "(%s + %s)" % (coqty(fn.retkind, self.node), rt)
         rt = "outcome " + rt if self.outcome else unparen(rt)
         where = "%s: %s, loop %s (`%s`), lines %d-%d" % (fn.mod.fn, fn.what(), self.name.rsplit("loop", 1)[1],
                                                          "while" if self.iswhile else "for", self.node.lineno, self.node.end_lineno)
@@ -371,9 +542,14 @@ class Loop:
                     "  | O => Raise OutOfFuel\n  | S fuel' =>\n    %s\n  end.\n"
                     % (where, self.name, ps(self.params), rt, fn.render(self.ir, "    ", self.outcome)))
         inv, car = self.params
+        if self.israng:
+            return ("(* %s; one iteration per unit of `fuel` = the length of the range *)\nFixpoint %s%s (fuel : nat)%s : %s :=\n"
+                    "  match fuel with\n  | O =>\n    %s\n  | S fuel' =>\n    %s\n  end.\n"
+                    % (where, self.name, ps(inv), ps(car), rt, fn.render(self.ir[0], "    ", self.outcome),
+                       fn.render(self.ir[1], "    ", self.outcome)))
         return ("(* %s; structural on the remaining elements *)\nFixpoint %s%s (xs : list %s)%s : %s :=\n  match xs with\n"
                 "  | [] =>\n    %s\n  | %s :: xs' =>\n    %s\n  end.\n"
-                % (where, self.name, ps(inv), unparen(coqty(self.elem, self.node)), ps(car), rt,
+                % (where, self.name, ps(inv), coqty(self.elem, self.node), ps(car), rt,
                    fn.render(self.ir[0], "    ", self.outcome), self.target, fn.render(self.ir[1], "    ", self.outcome)))
 
 
@@ -382,14 +558,19 @@ class Fn:
 
     def __init__(self, tr, recv, name, ptypes):
         self.tr, self.recv, self.name, self.mod = tr, recv, name, tr.mod
-        self.file = FILE_OF.get(name, FILES[0]) if recv is None else FILES[0]
+        self.file = tr.out or (FILE_OF.get(name, FILES[0]) if recv is None else FILES[0])
+        self.cname = tr.mangle(recv, name)
+        self.pyname = pyname = name.partition(":")[0]
         if recv is None:
-            self.owner, self.f, self.is_prop = None, self.mod.function(name), False
+            self.owner, self.f, self.is_prop = None, self.mod.function(pyname), False
         else:
-            r = self.mod.lookup(recv, name)
+            r = self.mod.lookup(recv, pyname)
             if r is None:
-                bad(None, "%s.%s not found" % (recv, name))
+                bad(None, "%s.%s not found" % (recv, pyname))
             self.owner, self.f, self.is_prop = r
+        self.statevars, self.mutating, self.valued = [], False, True
+        if recv in STATEVARS:
+            self.f = self.state_as_locals(self.f)
         a = self.f.args
         if a.vararg or a.kwarg or a.kwonlyargs or a.posonlyargs or (recv is not None and (not a.args or a.args[0].arg != "self")):
             bad(self.f, "unsupported signature")
@@ -399,7 +580,12 @@ class Fn:
         if recv is not None:
             self.attrs = {"self._module.version": ("int", "ver"),
                           "self._module.width": ("int", "w"), "self._module.max_int": ("int", "(max_int_w w)")}
-        for m, _ in STRATEGY:
+        for x, (ty, term) in UNIT_NAMES.get(tr.out, {}).items():
+            if self.mod.imports.get(x) == "netaddr.compat." + x and compat_ok(x):
+                self.attrs[x] = (ty, term)
+        if recv == "EUI":                                # an EUI object: (_module.version, _value)
+            self.attrs = {"self._module.version": ("int", "ver")}
+        for m, _ in STRATEGY + UNIT_STRATEGY.get(tr.out, ()):
             if self.mod.imports.get("_" + m) == "netaddr.strategy." + m:
                 for c in ("width", "version", "max_int"):
                     self.attrs["_%s.%s" % (m, c)] = ("int", "src_%s_%s" % (m, c))
@@ -411,13 +597,18 @@ class Fn:
         if recv == "IPNetwork":
             self.attrs["self._prefixlen"] = ("int", "p")
         self.used, self.pre, self.nohoist, self.nfresh, self.size = {}, [], 0, 0, 0
-        self.deps, self.loops, self.loopmemo = set(), [], {}
+        self.deps, self.depfns, self.loops, self.loopmemo, self.lrets = set(), [], [], {}, []
         self.assumes_inv = False        # some shift count built from object state only was taken as non-negative (class invariant)
         self.freshbind = set()          # assignments `x = <constructor result>`: x holds an object nobody else can see
         loops = sorted((n for n in ast.walk(self.f) if isinstance(n, (ast.For, ast.While))), key=lambda n: (n.lineno, n.col_offset))
         self.loopno = {id(n): i + 1 for i, n in enumerate(loops)}
-        env = {"@taint": frozenset(), "@mut": None, "@break": None, "@continue": None, "@raw": frozenset()}
-        self.params = []
+        env = {"@taint": frozenset(), "@mut": None, "@break": None, "@continue": None, "@raw": frozenset(), "@lret": False}
+        self.params, self.ptypes_declared = [], set(ptypes)
+        for attr, ty in STATEVARS.get(recv, ()):         # the object's state, passed like a leading parameter
+            ty = parse_type(ty)
+            cn = self.coqname(self.f, "self" + attr)
+            env["self" + attr] = (ty, cn)
+            self.statevars.append((cn, ty))
         for x in a.args[(0 if recv is None else 1):]:
             if recv is None and x.arg not in ptypes:
                 bad(x, "parameter %s of %s has no declared type in FUNCS" % (x.arg, name))
@@ -431,6 +622,78 @@ class Fn:
             body = body[1:]
         self.ir = self.block(body, env, lambda e: self.leaf(e, "none", None), [])
         self.finish()
+
+    # ---- object state read and written like locals (STATEVARS)
+    def method_mutates(self, name, seen=()):
+        """does method `name` of the receiver class assign a state attribute: directly, by a method call on it other than the
+        pure ones, or through another method of self?"""
+        r = self.mod.lookup(self.recv, name)
+        if r is None:
+            return False
+        paths = {"self." + a for a, _ in STATEVARS[self.recv]}
+        for n in ast.walk(r[1]):
+            if isinstance(n, ast.Attribute) and dotted(n) in paths and not isinstance(n.ctx, ast.Load):
+                return True
+            if isinstance(n, ast.Call) and isinstance(n.func, ast.Attribute):
+                if dotted(n.func.value) in paths and n.func.attr not in ("union", "copy"):
+                    return True
+                if (dotted(n.func) == "self." + n.func.attr and n.func.attr not in seen + (name,)
+                        and self.method_mutates(n.func.attr, seen + (name,))):
+                    return True
+        return False
+
+    def state_as_locals(self, f):
+        """a copy of method f in which the state attributes are local names: `self._a` -> name `self_a` (a leading parameter);
+        `self.m(x)` -> `self.m(<state names>, x)`; statement `self.m(x)` of a mutating m -> `<state names> = self.m(..)`;
+        in a mutating method `return e` -> `return (<state names>, e)`, `return` / end of body -> `return <state names>`."""
+        import copy
+        f, fn = copy.deepcopy(f), self
+        names = ["self" + a for a, _ in STATEVARS[self.recv]]
+        paths = {"self." + a: "self" + a for a, _ in STATEVARS[self.recv]}
+        self.mutating = self.method_mutates(self.pyname)
+        isnone = lambda v: v is None or (isinstance(v, ast.Constant) and v.value is None)
+        rets = [n for n in ast.walk(f) if isinstance(n, ast.Return)]
+        self.valued = any(not isnone(n.value) for n in rets)
+        if self.mutating and self.valued and any(isnone(n.value) for n in rets):
+            bad(f, "method that assigns the object state returns a value on some paths only")
+
+        def state(ctx, at):
+            xs = [ast.copy_location(ast.Name(id=x, ctx=ctx()), at) for x in names]
+            return xs[0] if len(xs) == 1 else ast.copy_location(ast.Tuple(elts=xs, ctx=ctx()), at)
+
+        class T(ast.NodeTransformer):
+            def visit_Attribute(self, n):
+                if dotted(n) in paths:
+                    return ast.copy_location(ast.Name(id=paths[dotted(n)], ctx=n.ctx), n)
+                return self.generic_visit(n)
+
+            def visit_Call(self, n):
+                own = isinstance(n.func, ast.Attribute) and dotted(n.func) == "self." + n.func.attr
+                n = self.generic_visit(n)
+                if own:
+                    n.args = [ast.copy_location(ast.Name(id=x, ctx=ast.Load()), n) for x in names] + n.args
+                return n
+
+            def visit_Expr(self, st):
+                v = st.value
+                if (isinstance(v, ast.Call) and isinstance(v.func, ast.Attribute) and dotted(v.func) == "self." + v.func.attr
+                        and fn.method_mutates(v.func.attr)):
+                    v = self.visit(v)
+                    v.state_call = True
+                    return ast.copy_location(ast.Assign(targets=[state(ast.Store, st)], value=v), st)
+                return self.generic_visit(st)
+
+            def visit_Return(self, st):
+                st = self.generic_visit(st)
+                if fn.mutating:
+                    st.value = (ast.copy_location(ast.Tuple(elts=[state(ast.Load, st), st.value], ctx=ast.Load()), st) if fn.valued
+                                else state(ast.Load, st))
+                return st
+        f = T().visit(f)
+        if self.mutating and not self.valued and not isinstance(f.body[-1], (ast.Return, ast.Raise)):
+            f.body.append(ast.copy_location(ast.Return(value=state(ast.Load, f.body[-1])), f.body[-1]))
+            f.body[-1].lineno = f.body[-1].end_lineno = f.end_lineno
+        return ast.fix_missing_locations(f)
 
     # ---- names
     def coqname(self, node, name):
@@ -467,6 +730,8 @@ class Fn:
 
     def state(self, env):
         """the receiver's state parameters as they are now (after `self._value = e` the new value is passed on)"""
+        if self.recv in STATEVARS:
+            return " ".join(env["self" + attr][1] for attr, _ in STATEVARS[self.recv])
         inv = {v: k for k, v in FIELD.items()}
         return " ".join(env[inv[x]][1] if inv.get(x) in env else x for x in STATE[self.recv])
 
@@ -484,22 +749,37 @@ class Fn:
         """use of translated definition (recv, name) on receiver state `state` with arguments [(type, term)]"""
         d = self.tr.get(recv, name, node)
         if FILES.index(d.file) > FILES.index(self.file):
-            bad(node, "%s lives in %s, which comes after %s" % (mangle(recv, name), d.file, self.file))
+            bad(node, "%s lives in %s, which comes after %s" % (d.cname, d.file, self.file))
         self.deps.add((recv, name))
+        self.depfns.append(d)
         self.assumes_inv |= d.assumes_inv
         if len(args) != len(d.params):
-            bad(node, "unsupported argument list for %s" % mangle(recv, name))
+            bad(node, "unsupported argument list for %s" % d.cname)
         for (ty, _), (_, pty) in zip(args, d.params):
-            unify(node, ty, pty, "argument of %s" % mangle(recv, name))
-        term = "(%s)" % " ".join([mangle(recv, name)] + ([state] if state else []) + [t for _, t in args])
+            unify(node, ty, pty, "argument of %s" % d.cname)
+        term = "(%s)" % " ".join([d.cname] + ([state] if state else []) + [t for _, t in args])
+        if d.optional and d.kind == "bool" and getattr(self, "opt_ok", None) == id(node):
+            return ("out", "optbool", term) if d.outcome else ("optbool", term)
         if d.optional:
-            bad(node, "use of %s, which may return None" % mangle(recv, name))
+            bad(node, "use of %s, which may return None" % d.cname)
+        if d.mutating and not getattr(node, "state_call", False):
+            bad(node, "call of %s, which assigns the object state, inside an expression" % d.cname)
         return ("out", d.kind, term) if d.outcome else (d.kind, term)
 
     def ctor(self, node, cls, env):
         kw = {k.arg: k.value for k in node.keywords}
         if None in kw or len(kw) != len(node.keywords):
             bad(node, "unsupported keyword arguments")
+        if cls in CTOR_AS_ARG:
+            if kw or len(node.args) != 1:
+                bad(node, "%s constructor form other than (int)" % cls)
+            return ("int", self.int_(node.args[0], env))             # the object is represented by the integer it is made from
+        if cls == "EUI":
+            args = list(node.args) + ([kw.pop("version")] if "version" in kw and len(node.args) == 1 else [])
+            if kw or len(args) != 2:
+                bad(node, "EUI constructor form other than (int, version)")
+            val, ver = self.int_(args[0], env), self.int_(args[1], env)
+            return ("out", "eui", "(mk_eui %s %s)" % (ver, val))
         if cls == "IPAddress":
             args = list(node.args) + ([kw.pop("version")] if "version" in kw and len(node.args) == 1 else [])
             if kw or len(args) != 2:
@@ -537,7 +817,7 @@ class Fn:
             return ("int", {"version": ver, "width": "(width %s)" % ver, "max_int": "(max_int_w (width %s))" % ver}[tail[8:]])
         if tail in fields:
             return ("int", fields[tail])
-        r = self.mod.lookup(cls, tail) if "." not in tail else None
+        r = self.tr.modof(cls).lookup(cls, tail) if "." not in tail else None
         if r and r[2]:
             if head in env["@raw"] and self.tr.get(cls, tail, node).assumes_inv:
                 # the object's _prefixlen was assigned directly (no setter): the invariant the callee's translation relies on
@@ -570,7 +850,13 @@ class Fn:
         return t
 
     def bool_(self, node, env):
+        self.opt_ok = id(node) if isinstance(node, ast.Call) else None      # `if self.m():` / `not self.m()` with m() -> None | bool
         ty, t = self.ex(node, env)
+        self.opt_ok = None
+        if ty == "optbool":
+            return "(py_truthy %s)" % t                 # the truth value of None is False
+        if is_list(ty):
+            return "(py_nonempty %s)" % t               # truth value of a list
         if ty != "bool":
             bad(node, "bool expression expected, got %s" % show(ty))
         return t
@@ -597,14 +883,23 @@ class Fn:
                 return ("bool", "true" if node.value else "false")
             if isinstance(node.value, int):
                 return ("int", literal(node, self.mod.text))
+            if isinstance(node.value, str) and all(32 <= ord(c) < 127 for c in node.value):
+                return ("str", "\"%s\"%%string" % node.value.replace('"', '""'))
             bad(node, "constant %r" % type(node.value).__name__)
         if isinstance(node, ast.Name):
             if node.id in env:
                 if env[node.id][0] == "sarg":
                     bad(node, "use of %s before its isinstance(_, _int_type) guard" % node.id)
                 return env[node.id]
-            if node.id in ("IPAddress", "IPNetwork") and node.id in self.mod.classes:
+            if node.id in ("IPAddress", "IPNetwork") and (node.id in self.mod.classes
+                                                         or self.mod.imports.get(node.id) == "netaddr.ip." + node.id):
                 return ("cls", node.id)
+            if node.id in CTOR_AS_ARG and node.id in self.mod.classes:
+                return ("cls", node.id)
+            if node.id in self.attrs and not node.id.startswith("self"):
+                return self.attrs[node.id]
+            if node.id in UNIT_TABLES.get(self.tr.out, {}) and self.mod.toplevel(node.id):
+                return (parse_type(UNIT_TABLES[self.tr.out][node.id]), node.id)
             bad(node, "unknown (or possibly unbound) name %s" % node.id)
         if isinstance(node, ast.Attribute):
             path = dotted(node)
@@ -615,6 +910,16 @@ class Fn:
             if path == "self.__class__" and self.recv:
                 return ("cls", self.recv)
             head, _, tail = (path or "").partition(".")
+            if head in env and env[head][0] == "dialect" and tail in ("word_size", "num_words"):
+                return ("int", "(%s %s)" % ("fst" if tail == "word_size" else "snd", env[head][1]))
+            if head in env and env[head][0] == "eui":
+                t = env[head][1]
+                if tail in ("_value", "_module.version"):
+                    return ("int", "(%s %s)" % ("evalue" if tail == "_value" else "ever", t))
+                r = self.mod.lookup("EUI", tail) if "." not in tail else None
+                if r and r[2]:
+                    return self.generated(node, "EUI", tail, "(ever %s) (evalue %s)" % (t, t), [])
+                bad(node, "attribute %s of an EUI" % tail)
             if head in env and (env[head][0] == "net" or env[head][0][0] == "opnd"):
                 return self.objattr(node, head, tail, env)
             if self.recv and path and path.startswith("self.") and path.count(".") == 1:
@@ -653,6 +958,34 @@ class Fn:
             rest = [self.bool_(x, env) for x in node.values[1:]]
             self.nohoist -= 1
             return ("bool", "(%s)" % (" && " if isinstance(node.op, ast.And) else " || ").join([first] + rest))
+        if isinstance(node, ast.Compare) and len(node.ops) == 1 and isinstance(node.ops[0], (ast.Eq, ast.Is)) and dotted(
+                node.left) == "self._module" and "self._module.version" in self.attrs and isinstance(node.comparators[0], ast.Name) and (
+                node.comparators[0].id + ".version") in self.attrs and node.comparators[0].id not in env:
+            # self._module == _m / is _m: the strategy modules are told apart by their `version` constants
+            return ("bool", "(%s =? %s)" % (self.attrs["self._module.version"][1], self.attrs[node.comparators[0].id + ".version"][1]))
+        if (isinstance(node, ast.Compare) and len(node.ops) == 1 and isinstance(node.ops[0], ast.In) and dotted(node.left) == "self"
+                and "self" not in env and self.recv in SELF_OPERAND and self.tr.out in UNIT_PREAMBLE):
+            ty, t = self.ex(node.comparators[0], env)              # self in T for a table row T
+            if ty != "row":
+                bad(node, "`self in` something other than a table row")
+            for cls in ("IPNetwork", "IPRange"):                      # src_contains_row uses both translated __contains__
+                d = self.tr.get(cls, "__contains__", node)
+                self.deps.add((cls, "__contains__"))
+                self.depfns.append(d)
+            return ("out", "bool", "(src_contains_row %s %s)" % (t, SELF_OPERAND[self.recv]))
+        if isinstance(node, ast.Compare) and len(node.ops) == 1 and isinstance(node.ops[0], ast.In) and isinstance(
+                node.comparators[0], ast.Attribute) and isinstance(node.comparators[0].value, ast.Name) and (
+                node.comparators[0].value.id in self.mod.classes and node.comparators[0].value.id not in env):
+            # e in C.ATTR for a class-level tuple of int literals
+            x = self.int_(node.left, env)
+            return ("bool", "(existsb (Z.eqb %s) [%s])" % (x, "; ".join(self.tr.class_tuple(node.comparators[0]))))
+        if isinstance(node, ast.Compare) and len(node.ops) == 1 and isinstance(node.ops[0], (ast.Eq, ast.NotEq)):
+            snap, pre0 = self.snapshot(), list(self.pre)
+            (ta, a), (tb, b) = self.ex(node.left, env), self.ex(node.comparators[0], env)
+            if ta == "str" and tb == "str":
+                return ("bool", ("(String.eqb %s %s)" if isinstance(node.ops[0], ast.Eq) else "(negb (String.eqb %s %s))") % (a, b))
+            self.restore(snap)
+            self.pre = pre0
         if isinstance(node, ast.Compare):
             xs = [self.int_(x, env) for x in [node.left] + node.comparators[:1]]
             self.nohoist += 1                                   # a <= b <= c evaluates c only if a <= b
@@ -683,11 +1016,103 @@ class Fn:
             return self.subscript(node, env)
         if isinstance(node, ast.Call):
             return self.call(node, env)
+        if isinstance(node, ast.ListComp):
+            return self.listcomp(node, env)
         bad(node, "expression %s" % type(node).__name__)
+
+    def builtin_call(self, node, f, env, nargs):
+        """is node the call f(<nargs positional arguments>) of the builtin f (not shadowed by a local or a module-level name)?"""
+        return (isinstance(node, ast.Call) and isinstance(node.func, ast.Name) and node.func.id == f and f not in env
+                and not self.mod.toplevel(f) and not node.keywords and len(node.args) == nargs)
+
+    def listexpr(self, node, env):
+        """a list-valued expression that is consumed at once (for / enumerate / tuple): reversed(l) is rev l there"""
+        if self.builtin_call(node, "reversed", env, 1):
+            ty, t = self.ex(node.args[0], env)
+            if not is_list(ty):
+                bad(node, "reversed() of %s" % show(ty))
+            return (("list", ty[1]), "(rev %s)" % t)
+        return self.ex(node, env)
+
+    def elem_eqb(self, node, ty):
+        """the equality (hence hashing) of the elements of a set: IPNetwork.__eq__ compares key() = (version, first, last)"""
+        e = ty[1].find().t
+        if e == "net":
+            return "net_key_eqb"
+        if e == "int":
+            return "Z.eqb"
+        bad(node, "set of %s" % show(e or "?"))
+
+    def listcomp(self, node, env):
+        """[y for x in xs for y in f(x)] -> py_flat_map_o (fun x => f x) xs (the lists f(x) one after the other; the first
+        exception wins)"""
+        g = node.generators
+        if not (len(g) == 2 and all(not x.ifs and not x.is_async and isinstance(x.target, ast.Name) for x in g)
+                and isinstance(node.elt, ast.Name) and node.elt.id == g[1].target.id and g[0].target.id != g[1].target.id
+                and g[0].target.id not in env and g[1].target.id not in env):
+            bad(node, "list comprehension other than [y for x in xs for y in f(x)] with fresh x, y")
+        ty, t = self.ex(g[0].iter, env)
+        elem = ty[1].find().t if is_list(ty) else None
+        if elem is None:
+            bad(node, "comprehension over %s" % show(ty))
+        cn, lenv = self.bind_local(g[0].target, g[0].target.id, elem, env, g[0].iter)
+        saved, self.pre = self.pre, []
+        r = self.rhs(g[1].iter, lenv)
+        inner, self.pre = self.pre, saved
+        if inner:
+            bad(node, "comprehension whose inner iterable is more than one call")
+        rty = r[1] if r[0] == "out" else r[0]
+        if not is_list(rty):
+            bad(node, "comprehension whose inner iterable is %s" % show(rty))
+        return ("out", ("list", rty[1]), "(py_flat_map_o (fun %s => %s) %s)" % (cn, r[2] if r[0] == "out" else "(Ok %s)" % r[1], t))
+
+    def sorted_(self, node, env):
+        """sorted(xs, key=lambda x: <int>, reverse=True) -> py_sorted_desc: stable, descending by key; for a set `xs` the order
+        among equal keys is the (unspecified) iteration order = the order of the representing list"""
+        kw = {k.arg: k.value for k in node.keywords}
+        lam = kw.get("key")
+        if not (len(node.args) == 1 and set(kw) == {"key", "reverse"} and len(kw) == len(node.keywords)
+                and isinstance(kw["reverse"], ast.Constant) and kw["reverse"].value is True and isinstance(lam, ast.Lambda)
+                and len(lam.args.args) == 1 and not (lam.args.defaults or lam.args.vararg or lam.args.kwarg or lam.args.kwonlyargs
+                                                     or lam.args.posonlyargs) and lam.args.args[0].arg not in env):
+            bad(node, "sorted() other than sorted(xs, key=lambda x: <int>, reverse=True)")
+        ty, t = self.ex(node.args[0], env)
+        elem = ty[1].find().t if (is_list(ty) or is_set(ty)) else None
+        if elem is None:
+            bad(node, "sorted() of %s" % show(ty))
+        cn, lenv = self.bind_local(lam, lam.args.args[0].arg, elem, env, node.args[0])
+        self.nohoist += 1
+        key = self.int_(lam.body, lenv)
+        self.nohoist -= 1
+        return (("list", ty[1]), "(py_sorted_desc (fun %s => %s) %s)" % (cn, key, t))
+
+    def subnet_list(self, node, env):
+        """list(x.subnet(prefixlen[, count=c])) for an IPNetwork-valued x: IPNetwork.subnet is a generator and is not translated;
+        the call becomes the prelude symbol py_list_subnet (the hand model of the generator, run to exhaustion)"""
+        c = node.args[0]
+        ty, t = self.ex(c.func.value, env)
+        r = self.tr.modof("IPNetwork").lookup("IPNetwork", "subnet")
+        if ty != "net" or not r or r[2] or [a.arg for a in r[1].args.args] != ["self", "prefixlen", "count", "fmt"] or [
+                (d.value if isinstance(d, ast.Constant) else d) for d in r[1].args.defaults] != [None, None]:
+            bad(node, "list(x.subnet(..)) on something other than an IPNetwork with subnet(self, prefixlen, count=None, fmt=None)")
+        kw = {k.arg: k.value for k in c.keywords}
+        if len(c.args) != 1 or not set(kw) <= {"count"} or len(kw) != len(c.keywords):
+            bad(node, "x.subnet() with an argument list other than (prefixlen[, count=c])")
+        prefix = self.int_(c.args[0], env)
+        cty, ct = self.ex(kw["count"], env) if "count" in kw else ("none", None)
+        if cty not in ("none", "int", "optint"):
+            bad(node, "count=%s" % show(cty))
+        count = "None" if cty == "none" else "(Some %s)" % ct if cty == "int" else ct
+        return ("out", ("list", Cell("net")), "(py_list_subnet %s %s %s)" % (t, prefix, count))
 
     def subscript(self, node, env):
         ty, t = self.ex(node.value, env)
         sl = node.slice
+        if isinstance(sl, ast.Slice) and ty == "str":
+            k = const_int(sl.lower) if sl.lower is not None else None
+            if k is None or k < 0 or sl.upper is not None or sl.step is not None:
+                bad(node, "string slice other than s[k:] with a literal k >= 0")
+            return ("str", "(py_str_from %d %s)" % (k, t))
         if isinstance(sl, ast.Slice):
             if sl.lower is None and sl.upper is None and const_int(sl.step) == -1 and is_list(ty):
                 return (("list", ty[1]), "(rev %s)" % t)
@@ -707,6 +1132,11 @@ class Fn:
 
     def call(self, node, env):
         f = node.func
+        if self.builtin_call(node, "int", env, 2) and const_int(node.args[1]) == 2:
+            ty, t = self.ex(node.args[0], env)              # int(s, 2): ValueError for text that is no binary literal
+            if ty != "str":
+                bad(node, "int(x, 2) of %s" % show(ty))
+            return ("out", "int", "(py_int_o 2 %s)" % t)
         if isinstance(f, ast.Name) and f.id not in env and not self.mod.toplevel(f.id) and f.id in ("int", "bool", "min", "max", "iter"):
             if node.keywords or len(node.args) != (2 if f.id in ("min", "max") else 1):
                 bad(node, "%s() with an unsupported argument list" % f.id)
@@ -719,16 +1149,96 @@ class Fn:
                 return ("int", t)
             if f.id == "int" and ty == "obj":                       # int(IPAddress object) = its __int__()
                 return self.generated(node, "IPAddress", "__int__", " ".join(t[:3]), [])
+            if f.id == "int" and ty == "eui":                       # int(EUI object) = its __int__()
+                return self.generated(node, "EUI", "__int__", "(ever %s) (evalue %s)" % (t, t), [])
             if f.id == "bool" and ty in ("int", "bool"):
                 return ("bool", "(negb (%s =? 0))" % t if ty == "int" else t)
             bad(node, "%s() of %s" % (f.id, show(ty)))
-        if isinstance(f, ast.Name) and f.id not in env and any(k[1] == f.id for k in FUNCS):
+        if (isinstance(f, ast.Name) and f.id == "len" and "len" not in env and not self.mod.toplevel("len") and len(node.args) == 1
+                and not node.keywords and isinstance(node.args[0], ast.Call) and dotted(node.args[0].func) == "_iter_range"
+                and "_iter_range" not in env and self.mod.imports.get("_iter_range") == "netaddr.compat._iter_range"
+                and compat_ok("_iter_range") and len(node.args[0].args) == 3 and not node.args[0].keywords):
+            a, b, c = [self.int_(x, env) for x in node.args[0].args]     # len(range(a, b, c)): Model/PySlice.v (ValueError, OverflowError)
+            return ("out", "int", "(py_range_len %s %s %s)" % (a, b, c))
+        if (isinstance(f, ast.Attribute) and f.attr == "indices" and isinstance(f.value, ast.Name)
+                and env.get(f.value.id, ("",))[0] == "slice" and len(node.args) == 1 and not node.keywords):
+            a, b, c = self.fresh(), self.fresh(), self.fresh()           # slice.indices(length): Model/PySlice.v
+            return ("out", ("tup", ("int", "int", "int")), "(let '(%s, %s, %s) := %s in py_slice_indices %s %s %s %s)" % (
+                a, b, c, env[f.value.id][1], a, b, c, self.int_(node.args[0], env)))
+        if isinstance(f, ast.Name) and f.id == "iter_iprange" and f.id not in env and f.id in [
+                n.name for n in self.mod.tree.body if isinstance(n, ast.FunctionDef)]:
+            g = self.mod.function("iter_iprange")      # a generator function: the call runs nothing, the object is its arguments
+            if ([x.arg for x in g.args.args] != ["start", "end", "step"] or [const_int(d) for d in g.args.defaults] != [1]
+                    or not any(isinstance(n, ast.Yield) for n in ast.walk(g)) or node.keywords or len(node.args) not in (2, 3)):
+                bad(node, "iter_iprange is not the generator iter_iprange(start, end, step=1), or is called with keywords")
+            (ta, a), (tb, b) = self.ex(node.args[0], env), self.ex(node.args[1], env)
+            if ta != "obj" or tb != "obj":
+                bad(node, "iter_iprange of something other than two IPAddress objects")
+            step = self.int_(node.args[2], env) if len(node.args) == 3 else "1"
+            return ("iterator", "(ItIprange %s %s %s %s %s)" % (a[0], a[2], b[0], b[2], step))
+        if self.builtin_call(node, "bin", env, 1):
+            return ("str", "(py_bin %s)" % self.int_(node.args[0], env))
+        if isinstance(f, ast.Attribute) and f.attr in ("replace", "startswith") and not node.keywords and not (
+                isinstance(f.value, ast.Name) and f.value.id not in env):
+            ty, t = self.ex(f.value, env)
+            args = [self.ex(x, env) for x in node.args]
+            if ty != "str" or any(a[0] != "str" for a in args) or len(args) != (2 if f.attr == "replace" else 1):
+                bad(node, "%s() on something other than strings" % f.attr)
+            return ("str", "(replace %s %s %s)" % (args[0][1], args[1][1], t)) if f.attr == "replace" else (
+                "bool", "(starts_with %s %s)" % (args[0][1], t))
+        if (isinstance(f, ast.Attribute) and f.attr == "issuperset" and isinstance(f.value, ast.Name) and f.value.id not in env
+                and len(node.args) == 1 and not node.keywords):
+            ty, t = self.ex(node.args[0], env)              # CHARSET.issuperset(s) for a module-level frozenset of characters
+            if ty != "str":
+                bad(node, "issuperset() of %s" % show(ty))
+            return ("bool", "(py_chars_in [%s] %s)" % ("; ".join(self.tr.charset(f.value.id, node)), t))
+        if self.builtin_call(node, "len", env, 1) or self.builtin_call(node, "tuple", env, 1):
+            if f.id == "len":
+                snap, pre0 = self.snapshot(), list(self.pre)
+                ty, t = self.ex(node.args[0], env)
+                if ty == "str":
+                    return ("int", "(str_len %s)" % t)
+                self.restore(snap)
+                self.pre = pre0
+            ty, t = self.listexpr(node.args[0], env) if f.id == "tuple" else self.ex(node.args[0], env)
+            if not is_list(ty):
+                bad(node, "%s() of %s" % (f.id, show(ty)))
+            return ("int", "(Z.of_nat (List.length %s))" % t) if f.id == "len" else (ty, t)     # a tuple of a list: the same Coq list
+        if isinstance(f, ast.Name) and f.id not in env and not self.mod.toplevel(f.id) and f.id in ("sorted", "set", "list"):
+            if f.id == "sorted":
+                return self.sorted_(node, env)
+            if (f.id == "list" and len(node.args) == 1 and not node.keywords and isinstance(node.args[0], ast.Call)
+                    and isinstance(node.args[0].func, ast.Attribute) and node.args[0].func.attr == "subnet"):
+                return self.subnet_list(node, env)
+            if f.id == "set" and len(node.args) == 1 and not node.keywords:
+                ty, t = self.ex(node.args[0], env)
+                if is_list(ty):
+                    return (("set", ty[1]), "(py_set_of_list %s %s)" % (self.elem_eqb(node, ty), t))
+            bad(node, "%s() with an unsupported argument" % f.id)
+        if isinstance(f, ast.Name) and f.id not in env and self.mod.imports.get(f.id) in EXTERN:
+            sym, ptys, rty = EXTERN[self.mod.imports[f.id]]      # an untranslated callee: its hand model, as a prelude symbol
+            args = [self.ex(x, env) for x in node.args]
+            if node.keywords or len(args) != len(ptys):
+                bad(node, "unsupported argument list for %s" % f.id)
+            for (ty, _), pty in zip(args, ptys):
+                unify(node, ty, parse_type(pty), "argument of %s" % f.id)
+            return ("out", parse_type(rty), "(%s)" % " ".join([sym] + [t for _, t in args]))
+        if isinstance(f, ast.Name) and f.id not in env and self.tr.owner_of(f.id) is not None:
             return self.callfn(node, f.id, env)
         if self.recv and isinstance(f, ast.Attribute) and dotted(f) == "self." + f.attr and f.attr != "__class__":
             r = self.mod.lookup(self.recv, f.attr)
             if not r or r[2] or node.keywords:
                 bad(node, "call of self.%s" % f.attr)
+            if self.recv in STATEVARS:                     # state_as_locals put the state names in front of the arguments
+                k = len(STATEVARS[self.recv])
+                return self.generated(node, self.recv, f.attr, " ".join(self.ex(x, env)[1] for x in node.args[:k]),
+                                      [self.ex(x, env) for x in node.args[k:]])
             return self.generated(node, self.recv, f.attr, self.state(env), [("int", self.int_(x, env)) for x in node.args])
+        if (isinstance(f, ast.Attribute) and f.attr == "union" and len(node.args) == 1 and not node.keywords
+                and isinstance(f.value, ast.Name) and is_set(env.get(f.value.id, ("",))[0])):
+            (ta, a), (tb, b) = env[f.value.id], self.ex(node.args[0], env)      # s.union(t): a new set, s first
+            unify(node, tb, ta, "argument of union")
+            return (("set", ta[1]), "(py_set_union %s %s %s)" % (self.elem_eqb(node, ta), a, b))
         ty, cls = self.ex(f, env) if not isinstance(f, ast.Call) else (None, None)
         if ty != "cls":
             bad(node, "call of %s" % (dotted(f) or "a computed function"))
@@ -738,6 +1248,11 @@ class Fn:
     def leaf(self, env, kind, term, wrapped=False):
         if kind == "none" and env["@mut"]:
             kind, term = "self", env["@mut"][1]
+        if env["@break"] is not None:                   # `return` inside a loop: the loop's Fixpoint answers inl <value>
+            if kind in ("none", "self"):
+                bad(None, "return without a value inside a loop")
+            self.lrets.append(kind)
+            return ("lret", kind, term, wrapped)
         return ("ret", kind, term, wrapped)
 
     def block(self, stmts, env, k, after):
@@ -758,7 +1273,14 @@ class Fn:
         if isinstance(s, (ast.While, ast.For)):
             return self.loop(s, rest, env, k, after)
         if isinstance(s, ast.Try):
-            return self.try_next(s, env, go)
+            if len(s.handlers) == 1 and dotted(s.handlers[0].type) == "StopIteration":
+                return self.try_next(s, env, go)
+            if (len(s.handlers) == 1 and dotted(s.handlers[0].type) == "NameError" and "NameError" not in env and not s.orelse
+                    and not s.finalbody and not self.mod.toplevel("NameError") and self.only_builtins(s.body, env)):
+                return self.block(s.body + rest, env, k, after)     # the body reads known names only: the handler is dead code
+            if len(s.handlers) == 1 and len(s.handlers[0].body) == 1 and isinstance(s.handlers[0].body[0], ast.Pass):
+                return self.try_pass(s, rest, env, k, after)
+            return self.try_except(s, rest, env, k, after)
         if isinstance(s, (ast.Break, ast.Continue)):
             h = env["@break" if isinstance(s, ast.Break) else "@continue"]
             if h is None:
@@ -776,8 +1298,8 @@ class Fn:
         bad(s, "statement %s" % type(s).__name__)
 
     def return_(self, s, env):
-        if env["@break"] is not None:
-            bad(s, "return inside a loop")
+        if env["@break"] is not None and not env["@lret"]:
+            bad(s, "return inside a nested loop")
         v = s.value
         if v is None:
             return self.leaf(env, "none", None)
@@ -807,6 +1329,8 @@ class Fn:
             ir = self.leaf(env, "obj", r[1][3])
         elif r[0] in ("int", "bool", "none") or is_value(r[0]):
             ir = self.leaf(env, r[0], r[1])
+        elif isinstance(r[0], tuple) and r[0][0] == "iter" and r[1] == "[]":
+            ir = self.leaf(env, "iterator", "ItEmpty")          # iter([]) (or an exhausted iterator): ListLike.ItEmpty
         else:
             bad(s, "return of a %s value" % show(r[0]))
         return self.wrap(self.take_pre(), ir)
@@ -823,6 +1347,7 @@ class Fn:
         """does local x only ever hold objects this function made itself (every binding already translated as a constructor
         result) and never escape (every read is x.<attribute>)?  Only then is `x._prefixlen = e` a plain update of x."""
         bases = {id(n.value) for n in ast.walk(self.f) if isinstance(n, ast.Attribute)}
+        bases |= {id(n.value) for n in ast.walk(self.f) if isinstance(n, ast.Return) and isinstance(n.value, ast.Name)}   # `return x` ends it
         binds = [st for st in ast.walk(self.f) if isinstance(st, (ast.Assign, ast.AugAssign, ast.For, ast.With, ast.NamedExpr))
                  and any(isinstance(n, ast.Name) and n.id == x and isinstance(n.ctx, ast.Store) and id(n) not in bases for n in ast.walk(st))]
         return (all(id(st) in self.freshbind for st in binds) and x not in [a.arg for a in self.f.args.args]
@@ -890,6 +1415,15 @@ class Fn:
             for (ty, t), cn in reversed(list(zip(items, names))):
                 ir = ("let", cn, t, ir)
             return self.wrap(pre, ir)
+        if (isinstance(tgt, ast.Attribute) and isinstance(tgt.value, ast.Name) and env.get(tgt.value.id, ("",))[0] == "eui"
+                and tgt.attr == "_value"):
+            x, old = tgt.value.id, env[tgt.value.id][1]              # x._value = e on a local EUI object this function made itself
+            if not self.owned(x):
+                bad(s, "attribute assignment on %s, which may be visible under another name" % x)
+            e = self.int_(value, env)
+            pre = self.take_pre()
+            cn, env = self.bind_local(s, x, "eui", env, value)
+            return self.wrap(pre, ("let", cn, "{| ever := ever %s; evalue := %s; edialect := edialect %s |}" % (old, e, old), go(env)))
         if (isinstance(tgt, ast.Attribute) and isinstance(tgt.value, ast.Name) and env.get(tgt.value.id, ("",))[0] == "net"
                 and tgt.attr in ("_value", "_prefixlen")):
             x, old = tgt.value.id, env[tgt.value.id][1]              # x._prefixlen = e on a local object: a new record value for x
@@ -908,8 +1442,8 @@ class Fn:
         if isinstance(tgt, ast.Name):
             x = tgt.id
             ty = r[1] if r[0] == "out" else r[0]
-            if r[0] == "out" and r[1] == "net" and isinstance(s, ast.Assign) and (
-                    r[2].startswith("(mk_net ") or any(self.tr.done[k].fresh and r[2].startswith("(%s " % mangle(*k)) for k in self.deps)):
+            if r[0] == "out" and r[1] in ("net", "eui") and isinstance(s, ast.Assign) and (
+                    r[2].startswith("(mk_net ") or r[2].startswith("(mk_eui ") or any(d.fresh and r[2].startswith("(%s " % d.cname) for d in self.depfns)):
                 self.freshbind.add(id(s))
             if is_list(ty) and isinstance(value, ast.Name):
                 bad(s, "a second name for a list (aliasing)")
@@ -953,7 +1487,16 @@ class Fn:
             if self.tainted(v.args[0], env):
                 env["@taint"] = env["@taint"] | {l}
             return self.wrap(pre, ("let", cn, "(%s ++ [%s])" % (lt, t), go(env)))
-        bad(s, "expression statement other than l.append(e)")
+        if (isinstance(v, ast.Call) and isinstance(v.func, ast.Attribute) and v.func.attr == "remove" and isinstance(v.func.value, ast.Name)
+                and is_set(env.get(v.func.value.id, ("",))[0]) and len(v.args) == 1 and not v.keywords):
+            l = v.func.value.id                                          # s.remove(e): KeyError if absent
+            lty, lt = env[l]
+            ty, t = self.ex(v.args[0], env)
+            unify(s, ("set", Cell(ty)), lty, "removed element")
+            pre = self.take_pre()
+            cn, env = self.bind_local(s, l, lty, env)
+            return self.wrap(pre, ("bind", cn, "(py_set_remove %s %s %s)" % (self.elem_eqb(s, lty), lt, t), go(env)))
+        bad(s, "expression statement other than l.append(e) / s.remove(e)")
 
     def if_(self, s, rest, env, k, after):
         t, neg = s.test, False
@@ -961,6 +1504,34 @@ class Fn:
             t, neg = t.operand, True
         if isinstance(t, ast.Call) and dotted(t.func) == "isinstance":
             return self.isinstance_(s, t, neg, rest, env, k, after)
+        if (not neg and isinstance(t, ast.Compare) and len(t.ops) == 1 and isinstance(t.ops[0], ast.Is) and isinstance(t.left, ast.Name)
+                and isinstance(t.comparators[0], ast.Constant) and t.comparators[0].value is None
+                and env.get(t.left.id, ("",))[0] == "optdialect"):
+            # `if dialect is None: dialect = <module constant bound to a dialect class>`: from here on `dialect` is a dialect
+            x, a = t.left.id, s.body[0] if len(s.body) == 1 else None
+            if not (s.orelse == [] and isinstance(a, ast.Assign) and len(a.targets) == 1 and isinstance(a.targets[0], ast.Name)
+                    and a.targets[0].id == x and isinstance(a.value, ast.Name) and a.value.id not in env):
+                bad(s, "`if %s is None:` followed by something other than `%s = <DEFAULT>`" % (x, x))
+            old, dflt = env[x][1], self.tr.dialect_const(a.value.id, a)
+            cn, env = self.bind_local(a.targets[0], x, "dialect", env, t)
+            return ("let", cn, "(match %s with Some h0 => h0 | None => %s end)" % (old, dflt), self.block(rest, env, k, after))
+        if (isinstance(t, ast.Call) and dotted(t.func) == "_is_str" and "_is_str" not in env
+                and self.mod.imports.get("_is_str") == "netaddr.compat._is_str" and compat_lambda_isinstance("_is_str")):
+            # _is_str(x): true for a value the translator types as text, false for an int
+            if len(t.args) != 1 or t.keywords or not isinstance(t.args[0], ast.Name) or env.get(t.args[0].id, ("",))[0] not in ("str", "int"):
+                bad(s, "_is_str test on something that is neither text nor an int")
+            yes = (env[t.args[0].id][0] == "str") != neg
+            return self.block((s.body if yes else s.orelse) + rest, env, k, after)
+        if isinstance(t, ast.Call) and dotted(t.func) == "hasattr" and "hasattr" not in env and not self.mod.toplevel("hasattr"):
+            # hasattr(<parameter>, '<name>'): decided by the declared type of the parameter
+            if not (len(t.args) == 2 and not t.keywords and isinstance(t.args[0], ast.Name) and t.args[0].id in [x.arg for x in self.f.args.args]
+                    and isinstance(t.args[1], ast.Constant) and isinstance(t.args[1].value, str) and t.args[0].id in env):
+                bad(s, "hasattr test other than hasattr(<parameter>, '<name>')")
+            ty = env[t.args[0].id][0]
+            if t.args[0].id not in self.ptypes_declared or (ty if isinstance(ty, str) else ty[0], t.args[1].value) not in HASATTR:
+                bad(s, "hasattr(%s, %r) is not decided by the declared type %s" % (t.args[0].id, t.args[1].value, show(ty)))
+            yes = HASATTR[(ty if isinstance(ty, str) else ty[0], t.args[1].value)] != neg
+            return self.block((s.body if yes else s.orelse) + rest, env, k, after)
         c = self.bool_(s.test, env)
         pre = self.take_pre()
         exits = (ast.Return, ast.Raise, ast.Break, ast.Continue, ast.Try)
@@ -1033,6 +1604,71 @@ class Fn:
             return self.block((yes if self.isinst(s, ty[1], t.args[1].id) else no) + rest, env, k, after)
         bad(s, "isinstance test on %s, which is neither an `sarg` nor an `operand` parameter" % x)
 
+    def try_except(self, s, rest, env, k, after):
+        """try: body / except E1: raise E2(..)  ->  do <variables assigned in body> <- py_except E1 E2 (body); rest.
+        The handler covers exactly the body; E1 is matched by class (no listed exception class derives from another one)."""
+        h = s.handlers[0] if len(s.handlers) == 1 else None
+        exits = (ast.Return, ast.Break, ast.Continue, ast.Try, ast.While, ast.For)
+        if (h is None or s.orelse or s.finalbody or not isinstance(h.type, ast.Name) or h.type.id not in EXN or h.type.id in env
+                or self.mod.toplevel(h.type.id) and h.type.id not in self.mod.imports
+                or len(h.body) != 1 or not isinstance(h.body[0], ast.Raise) or env["@mut"]
+                or any(isinstance(n, exits) for st in s.body for n in ast.walk(st))):
+            bad(s, "try statement other than `try: <assignments, if, raise> / except E1: raise E2(..)`")
+        if h.name and any(isinstance(n, ast.Name) and n.id == h.name for st in rest + after for n in ast.walk(st)):
+            bad(s, "exception variable %s used after the handler" % h.name)
+        e2 = self.block(h.body, {**env, "@break": None}, None, [])[1]
+        names, ends = assigned_names(s.body), []
+
+        def end(e):
+            ends.append(e)
+            return ("jret", e)
+        body = self.block(s.body, env, end, rest + after)
+        exported = [x for x in names if ends and all(x in e and (is_value(e[x][0]) or e[x][0] == "obj") for e in ends)]
+        for key, val in env.items():                # compile-time bindings must come out unchanged, or be dead
+            if not key.startswith("@") and key not in exported and any(e.get(key) != val for e in ends):
+                if key in loaded_names(rest + after):
+                    bad(s, "%s is rebound inside try to something that is no Coq value and read afterwards" % key)
+        env = dict(env)
+        for x in names:
+            env.pop(x, None)
+        cns = []
+        for x in exported:
+            for e in ends[1:]:
+                unify(s, e[x][0], ends[0][x][0], "ends of the try body")
+            cn = self.coqname(s, x)
+            cns.append(cn)
+            env[x] = ("obj", self.objvar(cn)) if ends[0][x][0] == "obj" else (ends[0][x][0], cn)
+        env["@taint"] = frozenset().union(env["@taint"], *[e["@taint"] for e in ends]) - (set(names) - set(exported))
+
+        def close(ir):
+            if ir[0] == "jret" and isinstance(ir[1], dict):
+                return ("jret", tuple_term([ir[1][x][1][3] if ir[1][x][0] == "obj" else ir[1][x][1] for x in exported]))
+            return tuple(close(x) if isinstance(x, tuple) and x and isinstance(x[0], str) else
+                         [(kd, ns, close(sub)) for kd, ns, sub in x] if isinstance(x, list) else x for x in ir)
+        return ("try", h.type.id, e2, pattern(cns), close(body), self.block(rest, env, k, after))
+
+    def only_builtins(self, stmts, env):
+        """does every name read by the statements denote a local or one of the builtins the translator knows (so that no
+        NameError can arise)?"""
+        known = ("bin", "int", "len", "bool", "min", "max")
+        return all(n.id in env or (n.id in known and not self.mod.toplevel(n.id)) for st in stmts for n in ast.walk(st)
+                   if isinstance(n, ast.Name) and isinstance(n.ctx, ast.Load))
+
+    def try_pass(self, s, rest, env, k, after):
+        """try: body / except E: pass, where body assigns nothing (it may `return`):
+        do h <- py_except_pass E (body: inl <returned value> | inr tt at its end); match h with inl r => r | inr _ => rest"""
+        h = s.handlers[0]
+        exits = (ast.Break, ast.Continue, ast.Try, ast.While, ast.For)
+        if (s.orelse or s.finalbody or not isinstance(h.type, ast.Name) or h.type.id not in EXN or h.type.id in env or h.name
+                or (self.mod.toplevel(h.type.id) and h.type.id not in self.mod.imports) or env["@mut"] or env["@break"] is not None
+                or assigned_names(s.body) or any(isinstance(n, exits) for st in s.body for n in ast.walk(st))):
+            bad(s, "try statement other than `try: <if / return / raise, no assignment> / except E: pass` outside loops")
+        benv = dict(env)
+        benv["@break"], benv["@continue"], benv["@lret"] = (lambda e: None), None, True      # `return` inside: the body answers inl
+        body = self.block(s.body, benv, lambda e: ("ret", "@loop", "(inr tt)", False), rest + after)
+        hn, rn = self.fresh(), self.fresh()
+        return ("trypass", h.type.id, hn, rn, body, self.block(rest, env, k, after))
+
     def try_next(self, s, env, go):
         """try: x = [IPNetwork(]_iter_next(it)[)] ... except StopIteration: raise E(...)  ->  match it with [] => Raise E | x :: it => ..."""
         h = s.handlers[0] if len(s.handlers) == 1 else None
@@ -1065,18 +1701,44 @@ class Fn:
     def loop(self, s, rest, env, k, after):
         """while / for -> a Fixpoint (class Loop) and its call; see the module docstring"""
         iswhile = isinstance(s, ast.While)
-        if s.orelse or env["@break"] is not None or env["@mut"]:
-            bad(s, "loop with else / nested loop / loop after a state assignment")
-        name = "%s_loop%d" % (mangle(self.recv, self.name), self.loopno[id(s)])
+        if s.orelse or env["@mut"]:
+            bad(s, "loop with else / loop after a state assignment")
+        nested = env["@break"] is not None
+        has_ret = any(isinstance(n, ast.Return) for st in s.body for n in ast.walk(st))
+        if nested and has_ret:
+            bad(s, "return inside a nested loop")
+        name = "%s_loop%d" % (self.cname, self.loopno[id(s)])
         assigned, loads = assigned_names(s.body), loaded_names(([s.test] if iswhile else []) + s.body)
-        it = target = elem = None
+        it = target = elem = itterm = counter = ccn = None
+        iterpre, israng = [], False
         if not iswhile:
-            if not (isinstance(s.target, ast.Name) and isinstance(s.iter, ast.Name) and s.iter.id in env
-                    and isinstance(env[s.iter.id][0], tuple) and env[s.iter.id][0][0] in ("list", "iter")):
-                bad(s, "for loop other than `for <name> in <list or iterator variable>`")
-            it, target, elem = s.iter.id, s.target.id, env[s.iter.id][0][1].find().t
-            if elem is None or it in assigned or target in env or target in assigned_names(s.body):
-                bad(s, "for loop over a list of unknown element type, or that rebinds its list or its loop variable")
+            tnode, itexpr = s.target, s.iter
+            if (self.builtin_call(itexpr, "enumerate", env, 1) and isinstance(tnode, ast.Tuple) and len(tnode.elts) == 2
+                    and all(isinstance(x, ast.Name) for x in tnode.elts)):
+                counter, tnode, itexpr = tnode.elts[0].id, tnode.elts[1], itexpr.args[0]   # for i, x in enumerate(xs): i = 0, 1, ..
+                if counter in env or counter in assigned or counter == tnode.id:
+                    bad(s, "enumerate() counter %s is bound before the loop or assigned in it" % counter)
+            if not isinstance(tnode, ast.Name):
+                bad(s, "for loop other than `for <name> in <list>` / `for i, x in enumerate(<list>)` / `for _ in range(n)`")
+            target = tnode.id
+            if self.builtin_call(itexpr, "range", env, 1) and counter is None:
+                # for _ in range(n): n iterations (none for n <= 0); the loop variable itself is not translated
+                if target in loads or target in env:
+                    bad(s, "loop variable %s of range() is read (or bound before)" % target)
+                israng, itterm, elem, target = True, "(Z.to_nat %s)" % self.int_(itexpr.args[0], env), "unit", None
+                iterpre = self.take_pre()
+            elif (isinstance(itexpr, ast.Name) and itexpr.id in env and isinstance(env[itexpr.id][0], tuple)
+                    and env[itexpr.id][0][0] in ("list", "iter")):
+                it, (itty, itterm) = itexpr.id, env[itexpr.id]
+            else:                                        # `for x in <expression>`: the list is computed once, before the loop
+                itty, itterm = self.listexpr(itexpr, env)
+                if not is_list(itty):
+                    bad(s, "for loop over %s" % show(itty))
+                iterpre = self.take_pre()
+            if not israng:
+                elem = itty[1].find().t
+                if elem is None or it in assigned or target in env or target in assigned_names(s.body):
+                    bad(s, "for loop over a list of unknown element type, or that rebinds its list or its loop variable")
         later = loaded_names(rest + after)
         carried = [x for x in assigned if x in env and x != target]
         for x in carried:
@@ -1087,7 +1749,9 @@ class Fn:
             if x in env and x != it and x not in inv + carried and env[x][0] not in ("none", "cls"):
                 bad(s, "loop reads %s, a %s" % (x, show(env[x][0])))
         live = [x for x in carried if x in later]
-        if target in later:
+        inside = {id(n) for st in s.body for n in ast.walk(st)}      # (an enclosing loop puts this very loop into `after`)
+        if any(isinstance(n, ast.Name) and n.id in (target, counter) and isinstance(n.ctx, ast.Load) and id(n) not in inside
+               for st in rest + after for n in ast.walk(st)):
             bad(s, "loop variable %s read after the loop" % target)
         state = list(STATE[self.recv]) if "self" in loads else []
         ienv = {key: val for key, val in env.items() if key.startswith("@") or val[0] in ("none", "cls")}
@@ -1102,27 +1766,31 @@ class Fn:
                 if x not in e:
                     bad(s, "%s may be unbound when the loop stops" % x)
                 unify(s, e[x][0], env[x][0], "loop variable %s" % x)
-            return ("ret", "@loop", tuple_term([e[x][1] for x in live]), False)
+            t = tuple_term([e[x][1] for x in live])
+            return ("ret", "@loop", "(inr %s)" % t if has_ret else t, False)
 
         def again(e):                                    # next iteration in environment e
             for x in carried:
                 if x not in e:
                     bad(s, "%s may be unbound at the end of the loop body" % x)
                 unify(s, e[x][0], env[x][0], "loop variable %s" % x)
-            args = ["fuel'"] * iswhile + state + [ienv[x][1] for x in inv] + ["xs'"] * (not iswhile) + [e[x][1] for x in carried]
+            args = (["fuel'"] * iswhile + state + [ienv[x][1] for x in inv] + ["fuel'" if israng else "xs'"] * (not iswhile)
+                    + ["(%s + 1)" % ccn] * (counter is not None) + [e[x][1] for x in carried])
             return ("ret", "@loop", "(%s)" % " ".join([name] + args), True)
-        ienv["@break"], ienv["@continue"] = result, again
+        ienv["@break"], ienv["@continue"], ienv["@lret"] = result, again, has_ret
         ahead = [s] + rest + after
         if iswhile:
             c = self.bool_(s.test, ienv)
             ir = self.wrap(self.take_pre(), ("if", c, self.block(s.body, ienv, again, ahead), result(ienv)))
             outcome, ps = True, [(x, "int") for x in state] + params
         else:
-            tcn, benv = self.bind_local(s.target, target, elem, ienv, s.iter)
+            tcn, benv = ("_", ienv) if israng else self.bind_local(s.target, target, elem, ienv, s.iter)
+            if counter is not None:
+                ccn, benv = self.bind_local(s.target, counter, "int", benv)
             ir = (result(ienv), self.block(s.body, benv, again, ahead))
             outcome = any(self.effects(x) for x in ir)
-            ps = ([(x, "int") for x in state] + params[:len(inv)], params[len(inv):])
-        L = Loop(name, s, iswhile, ps, tuple_type([env[x][0] for x in live]), ir, outcome, elem, None if iswhile else tcn)
+            ps = ([(x, "int") for x in state] + params[:len(inv)], [(ccn, "int")] * (counter is not None) + params[len(inv):])
+        L = Loop(name, s, iswhile, ps, tuple_type([env[x][0] for x in live]), ir, outcome, elem, None if iswhile else tcn, has_ret, israng)
         if id(s) in self.loopmemo:
             if repr(self.loopmemo[id(s)].ir) != repr(ir):
                 bad(s, "loop reached in two different contexts")
@@ -1130,7 +1798,8 @@ class Fn:
             self.loopmemo[id(s)] = L
             self.loops.append(L)
         # the call
-        args = state + [env[x][1] for x in inv] + ([env[it][1]] if it else []) + [env[x][1] for x in carried]
+        args = (state + [env[x][1] for x in inv] + ([itterm] if not iswhile else []) + ["0"] * (counter is not None)
+                + [env[x][1] for x in carried])
         if iswhile:
             spec = FUEL.get((self.recv, self.name, self.loopno[id(s)]))
             if spec is None:
@@ -1151,37 +1820,44 @@ class Fn:
             else:
                 env2[it] = (env[it][0], "[]")                # exhausted
         pat = pattern([env2[x][1] for x in live])
-        return ("bind" if outcome else "let", pat, "(%s)" % " ".join([name] + args), self.block(rest, env2, k, after))
+        if has_ret:         # inl r: the body returned r; inr <variables>: the loop ended
+            h = self.fresh()
+            return self.wrap(iterpre, ("bind" if outcome else "let", h, "(%s)" % " ".join([name] + args),
+                                       ("lmatch", h, self.fresh(), pat, self.block(rest, env2, k, after))))
+        return self.wrap(iterpre, ("bind" if outcome else "let", pat, "(%s)" % " ".join([name] + args), self.block(rest, env2, k, after)))
 
     # ---- result type and text
     @staticmethod
     def children(ir):
         k = ir[0]
         return ([ir[3]] if k in ("let", "bind") else [ir[2], ir[3]] if k in ("if", "match", "join") else [ir[4], ir[5]] if k == "next"
-                else [a[2] for a in ir[2]] if k == "omatch" else [])
+                else [a[2] for a in ir[2]] if k == "omatch" else [ir[4]] if k == "lmatch" else [ir[4], ir[5]] if k in ("try", "trypass") else [])
 
     def leaves(self, ir):
         return [ir] if ir[0] in ("ret", "raise") else [x for sub in self.children(ir) for x in self.leaves(sub)]
 
     def effects(self, ir):
         """can evaluating this IR raise (does it have to live in `outcome`)?"""
-        return ir[0] in ("raise", "bind", "next") or (ir[0] == "ret" and ir[1] != "@loop" and ir[3]) or any(
+        return ir[0] in ("raise", "bind", "next", "try", "trypass") or (ir[0] == "ret" and ir[1] != "@loop" and ir[3]) or (ir[0] == "lret" and ir[3]) or any(
             self.effects(x) for x in self.children(ir))
 
     def finish(self):
-        rets = [l for l in self.leaves(self.ir) if l[0] == "ret"]
-        kinds = [l[1] for l in rets if l[1] != "none"]
+        rets = [l for l in self.leaves(self.ir) if l[0] == "ret" and l[1] != "@loop"]      # (@loop: the end of a try body)
+        kinds = [l[1] for l in rets if l[1] != "none"] + self.lrets
         if not kinds:
             bad(self.f, "no return value")
         for kd in kinds[1:]:
             unify(self.f, kd, kinds[0], "return values")
         self.kind = kinds[0]
         self.optional = any(l[1] == "none" for l in rets)
+        if self.optional and (self.lrets or self.mutating):
+            bad(self.f, "None on some paths of a function that returns from inside a loop or assigns the object state")
+        self.retkind = self.kind
         self.outcome = self.kind in ("obj", "net", "self") or self.effects(self.ir)
         base = "(option %s)" % coqty(self.kind, self.f) if self.optional else coqty(self.kind, self.f)
         self.type = "outcome " + base if self.outcome else unparen(base)
         self.kind = "int" if self.kind == "self" else self.kind
-        self.fresh = bool(rets) and all(l[3] and str(l[2]).startswith("(mk_net ") for l in rets)   # every result is a new object
+        self.fresh = bool(rets) and all(l[3] and str(l[2]).startswith(("(mk_net ", "(mk_eui ")) for l in rets)   # every result is a new object
 
     def render(self, ir, ind, oc, optional=False):
         """text of an IR; oc: does the value live in `outcome`"""
@@ -1192,14 +1868,19 @@ class Fn:
                 return "omap Some %s" % term if optional else term
             t = "None" if kind == "none" else ("(Some %s)" % term if optional else term)
             return "Ok %s" % t if oc else t
+        if k == "lret":
+            return ("omap inl %s" % ir[2]) if ir[3] else ("Ok (inl %s)" % ir[2] if oc else "(inl %s)" % ir[2])
         if k == "jret":
             return "Ok %s" % ir[1] if oc else ir[1]
         if k == "raise":
             return "Raise %s" % ir[1]
         i2 = ind + "  "
-        sub = lambda x, o=oc: self.render(x, i2, o, optional) if x[0] in ("ret", "raise", "jret") else "(" + self.render(x, i2 + " ", o, optional) + ")"
+        sub = lambda x, o=oc: self.render(x, i2, o, optional) if x[0] in ("ret", "raise", "jret", "lret") else "(" + self.render(x, i2 + " ", o, optional) + ")"
         if k == "let":
-            return "let %s := %s in\n%s%s" % (ir[1].replace("(", "'(", 1), ir[2], ind, self.render(ir[3], ind, oc, optional))
+            body = self.render(ir[3], ind, oc, optional)
+            if ir[2] == "[]" and re.fullmatch(r"\w+", ir[1]) and not re.search(r"\b%s\b" % re.escape(ir[1]), body):
+                return body                  # an empty list that is never used (its element type cannot be known): dropped
+            return "let %s := %s in\n%s%s" % (ir[1].replace("(", "'(", 1), ir[2], ind, body)
         if k == "bind":
             return "do %s <- %s;\n%s%s" % (ir[1], ir[2], ind, self.render(ir[3], ind, oc, optional))
         if k == "if":
@@ -1217,6 +1898,15 @@ class Fn:
         if k == "next":
             return "match %s with\n%s| [] =>\n%s%s\n%s| %s :: %s =>\n%s%s\n%send" % (
                 ir[1], ind, i2, sub(ir[4]), ind, ir[2], ir[3], i2, sub(ir[5]), ind)
+        if k == "try":
+            return "do %s <- py_except %s %s\n%s  (%s);\n%s%s" % (ir[3], ir[1], ir[2], ind, self.render(ir[4], ind + "   ", True, False), ind,
+                                                                   self.render(ir[5], ind, oc, optional))
+        if k == "trypass":
+            return "do %s <- py_except_pass %s\n%s  (%s);\n%smatch %s with\n%s| inl %s => Ok %s\n%s| inr _ =>\n%s%s\n%send" % (
+                ir[2], ir[1], ind, self.render(ir[4], ind + "   ", True, False), ind, ir[2], ind, ir[3], ir[3], ind, i2, sub(ir[5]), ind)
+        if k == "lmatch":
+            return "match %s with\n%s| inl %s => %s\n%s| inr %s =>\n%s%s\n%send" % (
+                ir[1], ind, ir[2], ("Ok %s" if oc else "%s") % ir[2], ind, ir[3], i2, sub(ir[4]), ind)
         if k == "omatch":
             return "match %s with\n%s%send" % (ir[1], "".join("%s| %s =>\n%s%s\n" % (ind, " ".join([kd] + ns), i2, sub(a)) for kd, ns, a in ir[2]), ind)
         raise AssertionError(k)
@@ -1225,39 +1915,169 @@ class Fn:
         """one branch of a join; `let x := e in x` is written e"""
         if ir[0] == "let" and ir[3] == ("jret", ir[1]) and not oc:
             return ir[2]
-        return self.render(ir, ind, oc) if ir[0] in ("ret", "raise", "jret") else "(" + self.render(ir, ind + " ", oc) + ")"
+        return self.render(ir, ind, oc) if ir[0] in ("ret", "raise", "jret", "lret") else "(" + self.render(ir, ind + " ", oc) + ")"
 
     def what(self):
         if self.recv is None:
             return self.name
-        what = "%s.%s%s" % (self.owner, self.name, " (property)" if self.is_prop else "")
+        what = "%s.%s%s" % (self.owner, self.pyname, " (property)" if self.is_prop else "")
+        if self.name != self.pyname:
+            what += ", specialised to %s" % ", ".join("%s : %s" % (cn, show(ty)) for cn, ty in self.params)
         return what + (", receiver class %s" % self.recv if self.owner != self.recv else "")
 
     def text(self):
         first = min([self.f.lineno] + [d.lineno for d in self.f.decorator_list])
-        ps = ("(%s : Z)" % " ".join(STATE[self.recv]) if self.recv else "") + "".join(
-            " (%s : %s)" % (cn, unparen(coqty(ty, self.f))) for cn, ty in self.params)
+        ps = ("(%s : Z)" % " ".join(STATE[self.recv]) if STATE[self.recv] else "") + "".join(
+            " (%s : %s)" % (cn, unparen(coqty(ty, self.f))) for cn, ty in self.statevars + self.params)
         return "".join(L.text(self) + "\n" for L in self.loops) + "(* %s: %s, lines %d-%d *)\nDefinition %s %s : %s :=\n  %s.\n" % (
-            self.mod.fn, self.what(), first, self.f.end_lineno, mangle(self.recv, self.name), ps.strip(), self.type,
+            self.mod.fn, self.what(), first, self.f.end_lineno, self.cname, ps.strip(), self.type,
             self.render(self.ir, "  ", self.outcome, self.optional))
 
 
+BY_MODULE = {}      # dotted module name -> the first translator made for its file (filled by generate())
+
+
 class Translator:
-    def __init__(self):
-        self.mod = Module(IPFILE)
-        self.done, self.order, self.failed, self.active = {}, [], {}, []
+    """all translated definitions of one source file (`out` None: netaddr/ip/__init__.py with WHITELIST + FUNCS)"""
+
+    def __init__(self, fn=IPFILE, out=None, prefix="", specs=None, parent=None):
+        self.fn, self.out, self.prefix, self.parent = fn, out, prefix, parent
+        self.specs = WHITELIST + FUNCS if specs is None else specs
+        self.done, self.order, self.failed, self.active, self.consts = {}, [], {}, [], {}
+        BY_MODULE.setdefault(re.sub(r"(/__init__)?\.py$", "", fn).replace("/", "."), self)
+        CURFILE.append(fn)
+        try:
+            self.mod = Module(fn)
+        finally:
+            CURFILE.pop()
+
+    def mangle(self, recv, name):
+        return mangle(recv, name, self.prefix)
+
+    def const_eval(self, node, ns, depth=0):
+        """value of an int constant expression over literals, the names of `ns` (a class body being evaluated) and the module's
+        top-level int constants"""
+        if const_int(node) is not None:
+            return const_int(node)
+        if isinstance(node, ast.Name) and node.id in ns:
+            return ns[node.id]
+        if isinstance(node, ast.Name) and depth < 8:
+            ds = [a for a in self.mod.tree.body if any(isinstance(n, ast.Name) and n.id == node.id and isinstance(n.ctx, ast.Store)
+                                                       for n in ast.walk(a))]
+            if len(ds) == 1 and isinstance(ds[0], ast.Assign) and len(ds[0].targets) == 1 and isinstance(ds[0].targets[0], ast.Name):
+                return self.const_eval(ds[0].value, {}, depth + 1)
+        if isinstance(node, ast.BinOp) and type(node.op) in (ast.Add, ast.Sub, ast.Mult, ast.FloorDiv, ast.Pow):
+            a, b = self.const_eval(node.left, ns, depth), self.const_eval(node.right, ns, depth)
+            if isinstance(node.op, (ast.FloorDiv,)) and b == 0 or isinstance(node.op, ast.Pow) and b < 0:
+                bad(node, "constant expression")
+            return {ast.Add: a + b, ast.Sub: a - b, ast.Mult: a * b, ast.FloorDiv: a // b if b else 0, ast.Pow: a ** max(b, 0)}[type(node.op)]
+        bad(node, "constant expression %s" % type(node).__name__)
+
+    def class_ints(self, cls, depth=0):
+        """the int-valued class attributes of `cls` as Python sees them: each class body is evaluated in its own namespace
+        (falling back to the module constants), attributes are looked up through the bases"""
+        c = self.mod.classes.get(cls)
+        if c is None or depth > 8:
+            bad(c, "class %s is not defined in this module" % cls)
+        out = {}
+        for b in reversed(c.bases):
+            out.update(self.class_ints(dotted(b), depth + 1) if dotted(b) != "object" else {})
+        ns = {}
+        for st in c.body:
+            if isinstance(st, ast.Assign) and len(st.targets) == 1 and isinstance(st.targets[0], ast.Name):
+                try:
+                    ns[st.targets[0].id] = self.const_eval(st.value, ns)
+                except Untranslatable:
+                    ns.pop(st.targets[0].id, None)
+                    out.pop(st.targets[0].id, None)
+            elif not (isinstance(st, ast.Expr) and isinstance(st.value, ast.Constant)) and not isinstance(st, (ast.Pass, ast.FunctionDef)):
+                bad(st, "statement in the body of class %s that the translator does not read" % cls)
+        out.update(ns)
+        return out
+
+    def dialect_const(self, name, node):
+        """the Gallina constant for the module-level name `name`, which must be bound once, to a dialect class of this module:
+        the pair (word_size, num_words) of that class"""
+        cn = self.mangle(None, name)
+        if cn not in self.consts:
+            ds = [a for a in self.mod.tree.body for n in ast.walk(a) if isinstance(n, ast.Name) and n.id == name and isinstance(n.ctx, ast.Store)]
+            if (len(ds) != 1 or not isinstance(ds[0], ast.Assign) or len(ds[0].targets) != 1 or not isinstance(ds[0].value, ast.Name)
+                    or ds[0].value.id not in self.mod.classes or self.mod.imports.get(name)):
+                bad(node, "%s is not bound exactly once, at top level, to a class of this module" % name)
+            attrs = self.class_ints(ds[0].value.id)
+            if "word_size" not in attrs or "num_words" not in attrs:
+                bad(node, "class %s has no constant word_size / num_words" % ds[0].value.id)
+            self.consts[cn] = ("(* %s: %s = %s, line %d: (word_size, num_words) of that class *)\nDefinition %s : Z * Z := (%d, %d).\n"
+                               % (self.fn, name, ds[0].value.id, ds[0].lineno, cn, attrs["word_size"], attrs["num_words"]))
+        return cn
+
+    def charset(self, name, node):
+        """the characters of the module-level `name = frozenset([...])` (bound once; one-character strings, and ints -- the byte
+        values that iterating over a bytes object yields -- which never equal a character of a str and are left out)"""
+        ds = [a for a in self.mod.tree.body for n in ast.walk(a) if isinstance(n, ast.Name) and n.id == name and isinstance(n.ctx, ast.Store)]
+        v = ds[0].value if len(ds) == 1 and isinstance(ds[0], ast.Assign) and len(ds[0].targets) == 1 else None
+        if not (isinstance(v, ast.Call) and dotted(v.func) == "frozenset" and not self.mod.toplevel("frozenset") and len(v.args) == 1
+                and not v.keywords and isinstance(v.args[0], (ast.List, ast.Tuple, ast.Set)) and not self.mod.imports.get(name)
+                and all(isinstance(x, ast.Constant) and (isinstance(x.value, int) and not isinstance(x.value, bool) or (
+                    isinstance(x.value, str) and len(x.value) == 1 and 32 <= ord(x.value) < 127 and x.value != '"'))
+                        for x in v.args[0].elts)):
+            bad(node, "%s is not bound once, at top level, to frozenset([<characters and ints>])" % name)
+        return ['"%s"%%char' % x.value for x in v.args[0].elts if isinstance(x.value, str)]
+
+    def class_tuple(self, node):
+        """the int literals of the class-level tuple C.ATTR (bound once in the body of C, to a tuple of int literals)"""
+        c = self.mod.classes[node.value.id]
+        ds = [a for a in c.body for n in ast.walk(a) if isinstance(n, ast.Name) and n.id == node.attr and isinstance(n.ctx, ast.Store)]
+        if (len(ds) != 1 or not isinstance(ds[0], ast.Assign) or len(ds[0].targets) != 1 or not isinstance(ds[0].value, ast.Tuple)
+                or any(const_int(x) is None for x in ds[0].value.elts)):
+            bad(node, "%s.%s is not bound once, to a tuple of int literals" % (node.value.id, node.attr))
+        if any(isinstance(f, ast.FunctionDef) and any(isinstance(n, ast.Attribute) and n.attr == node.attr and not isinstance(n.ctx, ast.Load)
+                                                      for n in ast.walk(f)) for k in self.mod.classes.values() for f in k.body):
+            bad(node, "%s.%s is assigned somewhere" % (node.value.id, node.attr))
+        return [literal(x, self.mod.text) if isinstance(x, ast.Constant) else "(%d)" % const_int(x) for x in ds[0].value.elts]
+
+    def owner_of_samefile(self, name):
+        return self.parent.owner_of(name) if (self.parent is not None and self.parent.fn == self.fn) else None
+
+    def owner_of(self, name):
+        """(translator, name there) of the module-level function called `name` in this file: this translator, or -- for
+        `from <module> import f [as name]` -- the first translator of that module's file; None if nobody lists the function"""
+        if any(k[0] is None and k[1] == name for k in self.specs) and not self.mod.imports.get(name):
+            return self, name
+        imp = self.mod.imports.get(name)
+        if imp:
+            module, _, real = imp.rpartition(".")
+            t = BY_MODULE.get(module)
+            if t is not None and t is not self and any(k[0] is None and k[1] == real for k in t.specs) and not t.mod.imports.get(real):
+                return t, real
+            return None
+        return self.owner_of_samefile(name)
+
+    def modof(self, cls):
+        """the parsed module that defines class `cls` as seen from this file (this one, or netaddr/ip/__init__.py for an import)"""
+        if cls not in self.mod.classes and self.parent is not None and self.mod.imports.get(cls) == "netaddr.ip." + cls:
+            return self.parent.mod
+        return self.mod
 
     def get(self, recv, name, node=None):
         key = (recv, name)
+        if recv is None and self.owner_of(name) is not None and self.owner_of(name)[0] is not self:
+            t, real = self.owner_of(name)
+            return t.get(None, real, node)
+        if recv is not None and self.modof(recv) is not self.mod:
+            return self.parent.get(recv, name, node)
+        if self.parent is not None and self.parent.fn == self.fn and not any(w[:2] == key for w in self.specs):
+            return self.parent.get(recv, name, node)        # a second unit over the same file: everything else is the first one's
         if key in self.failed:
-            bad(node, "depends on untranslatable %s" % mangle(*key))
+            bad(node, "depends on untranslatable %s" % self.mangle(*key))
         if key in self.active:
-            bad(node, "recursive use of %s" % mangle(*key))
+            bad(node, "recursive use of %s" % self.mangle(*key))
         if key not in self.done:
-            spec = [w for w in WHITELIST + FUNCS if w[:2] == key]
+            spec = [w for w in self.specs if w[:2] == key]
             if not spec:
-                bad(node, "use of %s, which is not in the translator's whitelist" % mangle(*key))
+                bad(node, "use of %s, which is not in the translator's whitelist" % self.mangle(*key))
             self.active.append(key)
+            CURFILE.append(self.fn)
             try:
                 d = Fn(self, recv, name, spec[0][2])
                 d.body_text = d.text()          # also resolves every list type: fail here, scoped to this definition
@@ -1265,19 +2085,29 @@ class Translator:
                 self.failed[key] = str(e)
                 raise
             except Exception as e:      # a translator bug on an unforeseen AST shape: fail closed, scoped to this method
-                self.failed[key] = "%s:?: internal translator error %s: %s" % (IPFILE, type(e).__name__, e)
+                self.failed[key] = "%s:?: internal translator error %s: %s" % (self.fn, type(e).__name__, e)
                 raise Untranslatable(self.failed[key])
             finally:
                 self.active.pop()
+                CURFILE.pop()
             self.done[key] = d
             self.order.append(key)
         return self.done[key]
 
+    def run(self):
+        for recv, name, _ in self.specs:
+            assert (recv, name) not in SKIP or self.out
+            try:
+                self.get(recv, name)
+            except Untranslatable:
+                pass
+        return self
 
-def constants():
-    """width / version / max_int of the two strategy modules, as Gallina constants."""
+
+def constants(strategy=STRATEGY):
+    """width / version / max_int of the given strategy modules, as Gallina constants."""
     out = []
-    for m, fn in STRATEGY:
+    for m, fn in strategy:
         mod = Module(fn)
         known = {}
         for c in ("width", "version", "max_int"):
@@ -1303,39 +2133,51 @@ def constants():
     return out
 
 
+HEAD = ("(* GENERATED on every run by harness/gen/pysrc.py from the text of %s%s\n"
+        "   of the working tree; do not edit.  Proofs/GenOk_Src*.v prove each definition equal to the hand-written model. *)\n"
+        "From Coq Require Import ZArith List Bool.\nFrom NV Require Import Base.PyVal Model.Ip Model.SrcPrelude%s.\n"
+        "Import ListNotations.\nOpen Scope Z_scope.\n\n")
+
+
+def failures(tr, failed, mine):
+    """a function outside the subset keeps its name, with a one-constructor type NAMED after the reason: every lemma that
+    mentions it stops compiling and the Coq error (hence the replay file) spells out file, line and reason"""
+    fails = ""
+    for i, (k, v) in enumerate(failed):
+        if not mine(k):
+            continue
+        ty = "untranslatable_%d__%s" % (i + 1, re.sub(r"[^A-Za-z0-9]+", "_", v).strip("_"))
+        fails += ("(* UNTRANSLATABLE %s: %s *)\nInductive %s : Set := Untranslatable_%d.\nDefinition %s : %s := Untranslatable_%d.\n\n"
+                  % (tr.mangle(*k).replace("src_", "", 1), re.sub(r"[^ -~]", "?", v).replace("*)", "* )"), ty, i + 1, tr.mangle(*k), ty, i + 1))
+    return fails
+
+
 def generate():
-    tr = Translator()
-    for recv, name, _ in WHITELIST + FUNCS:
-        assert (recv, name) not in SKIP
-        try:
-            tr.get(recv, name)
-        except Untranslatable:
-            pass
-    names = [mangle(*k) for k in tr.order] + [L.name for k in tr.order for L in tr.done[k].loops]
+    BY_MODULE.clear()
+    tr = Translator().run()
+    units = [Translator(fn, out, prefix, specs, tr).run() for fn, out, prefix, _, specs in UNITS]
+    names = [x for t in [tr] + units for k in t.order for x in [t.mangle(*k)] + [L.name for L in t.done[k].loops]]
     assert len(set(names)) == len(names), "name collision"
     failed = sorted(tr.failed.items(), key=lambda kv: (kv[0][0] or "", kv[0][1]))
     out = {}
-    for fn in FILES:
+    for fn in FILES[:len(FILES) - len(UNITS)]:
         mine = [k for k in tr.order if tr.done[k].file == fn]
         uses = sorted({tr.done[d].file for k in mine for d in tr.done[k].deps} - {fn} | ({FILES[0]} if fn != FILES[0] else set()),
                       key=FILES.index)
-        head = ("(* GENERATED on every run by harness/gen/pysrc.py from the text of %s%s\n"
-                "   of the working tree; do not edit.  Proofs/GenOk_Src*.v prove each definition equal to the hand-written model. *)\n"
-                "From Coq Require Import ZArith List Bool.\nFrom NV Require Import Base.PyVal Model.Ip Model.SrcPrelude%s.\n"
-                "Import ListNotations.\nOpen Scope Z_scope.\n\n"
-                % (IPFILE, " and netaddr/strategy/ipv4.py, ipv6.py" if fn == FILES[0] else "",
-                   "".join(" Gen." + u[:-2] for u in uses)))
-        # a function outside the subset keeps its name, with a one-constructor type NAMED after the reason: every lemma that
-        # mentions it stops compiling and the Coq error (hence the replay file) spells out file, line and reason
-        fails = ""
-        for i, (k, v) in enumerate(failed):
-            if (FILE_OF.get(k[1], FILES[0]) if k[0] is None else FILES[0]) != fn:
-                continue
-            ty = "untranslatable_%d__%s" % (i + 1, re.sub(r"[^A-Za-z0-9]+", "_", v).strip("_"))
-            fails += ("(* UNTRANSLATABLE %s: %s *)\nInductive %s : Set := Untranslatable_%d.\nDefinition %s : %s := Untranslatable_%d.\n\n"
-                      % (mangle(*k).replace("src_", "", 1), re.sub(r"[^ -~]", "?", v).replace("*)", "* )"), ty, i + 1, mangle(*k), ty, i + 1))
+        head = HEAD % (IPFILE, " and netaddr/strategy/ipv4.py, ipv6.py" if fn == FILES[0] else "", "".join(" Gen." + u[:-2] for u in uses))
+        fails = failures(tr, failed, lambda k: (FILE_OF.get(k[1], FILES[0]) if k[0] is None else FILES[0]) == fn)
         text = head + ("\n".join(constants()) + "\n" if fn == FILES[0] else "") + "\n".join(tr.done[k].body_text for k in mine) + (
             "\n" + fails if fails else "")
         text.encode("ascii")
         out[fn] = text
+    for t, (fn, ofn, _, req, _) in zip(units, UNITS):
+        uses = sorted({d.file for k in t.order for d in t.done[k].depfns} - {ofn}, key=FILES.index)
+        fails = failures(t, sorted(t.failed.items(), key=lambda kv: (kv[0][0] or "", kv[0][1])), lambda k: True)
+        consts = constants(UNIT_STRATEGY[ofn]) if ofn in UNIT_STRATEGY else []
+        consts += [t.consts[c] for c in sorted(t.consts)] + ([UNIT_PREAMBLE[ofn]] if ofn in UNIT_PREAMBLE else [])
+        text = HEAD % (fn + "".join(", " + f for _, f in UNIT_STRATEGY.get(ofn, ())), "", req + "".join(" Gen." + u[:-2] for u in uses)) + (
+            "From Coq Require Import String Ascii.\n\n" if "Base.PyStr" in req else "") + (
+            "\n".join(consts) + "\n" if consts else "") + "\n".join(t.done[k].body_text for k in t.order) + ("\n" + fails if fails else "")
+        text.encode("ascii")
+        out[ofn] = text
     return out
